@@ -1,415 +1,83 @@
-(* C05Proofs.v — "a modal screen blocks its caller and shields everything beneath it" (worker s3).
-   The acceptors [chk_C05_shield_gen] (= chk_C05_gen of ScreenMon.v without its T_INPUT clause) and
-   [chk_C05_below] (every stack primitive leaves what is beneath an open modal frame in place) accept the
-   trace of every session of the screen-layer model (ScreenSem.app_run_all); the strict form (a modal push
-   returns only after its frame was closed) under the trace hypothesis [no_f13].
-   Method: a fuel-indexed Hoare judgement [run n s p Q] for handler programs with rules for the program
-   constructors ([run_seq], [run_try], [run_rd], [run_wr], [run_emit], [run_while], [run_api]); an
-   invariant [InvG] linking the world rebuilt from the trace ([SW]) to the concrete state (ideal stack =
-   [st_stack], no operation pending, fresh entry ids, frames' current entries on the stack; and, as long
-   as [no_f13] holds of the trace: the open frames are the modal entries of the stack in order, and
-   whenever the stop flag is cleared the innermost frame is closed); a relation [Rel] between the states
-   before and after a call (the modal frames are the same, in the same order, none re-opened: calls are
-   balanced); [loop_step]: every call of the loop keeps them if the handlers do; [handlers_ok]: every
-   handler of [screen_code] keeps them if the loop's calls (with less fuel) do; [loop_ok] by induction. *)
+(* C05Input.v -- the T_INPUT clause of C05 (worker s3): under three conditions decided on the trace,
+     no_stale_prompt         a prompt is issued only on behalf of the screen of the top entry,
+     no_orphan_prompt        no entry of a screen is popped while a request of that screen is unanswered,
+     no_modal_during_prompt  no modal screen is pushed while a request is unanswered,
+   input() is never given to a screen all of whose stack entries lie beneath an open modal frame
+   ([chk_C05_input] of C05Proofs.v accepts the session trace); each condition is needed (finding F16, six
+   sessions: props/C05.v).  The invariant behind it: while a request of screen S is unanswered, S has a stack
+   entry with no modal entry above it.
+   The file re-runs the development of C05Proofs.v (same judgement [run], same invariant, same theorems about
+   [chk_C05_shield_gen] and [chk_C05_below]) with this one more layer ([IQ]) in the invariant and one more
+   acceptor in what holds at every moment ([A]); the definitions made before [Section Screen] are those of
+   C05Proofs.v. *)
 From SL Require Import Tac.
 From RecordUpdate Require Import RecordUpdate.
-From SL Require Import PyInt LoopSem ScreenSem ScreenMon.
+From SL Require Import PyInt LoopSem ScreenSem ScreenMon proofs.C05Proofs proofs.C05Hyp.
 Import ListNotations.
 
-(* the acceptor that is proved: chk_C05_gen without the T_INPUT clause *)
-Definition chk_C05_shield_gen (strict : bool) (w : sworld) (e : event) : bool :=
-  match e with
-  | EUser tag a _ =>
-    if (tag =? T_SETUP)%nat || (tag =? T_REFRESH)%nat || (tag =? T_SHOW)%nat then negb (shielded w (nth0 a 0))
-    else if (tag =? T_MODAL_RETURN)%nat then
-      match find (fun f => (mf_orig f =? nth0 a 0)%nat) (sw_modal w) with
-      | Some f => mf_closed f || negb strict
-      | None => false
-      end
-    else true
-  | _ => true
-  end.
-Definition chk_C05_shield := chk_C05_shield_gen true.
-Definition chk_C05_shield_partial := chk_C05_shield_gen false.
+(* ================================================================ the conditions, decided on the trace *)
+(* "unanswered": a request (T_REQ [screen; args; handler]) that has not yet been answered by a typed line
+   (T_READY [handler; 1]).  A refused request, or one answered by a failure because a newer request took the
+   line, stays unanswered. *)
+Record hq := {
+  q_stack : list (nat * bool);   (* (screen, modal) of the stack entries, top first, from the T_STACK events *)
+  q_pend : list (nat * nat);     (* unanswered requests: (handler, screen) *)
+  q_stale : bool; q_orphan : bool; q_modal : bool }.
+#[export] Instance eta_hq : Settable _ := settable! Build_hq <q_stack; q_pend; q_stale; q_orphan; q_modal>.
+Definition hq0 : hq := {| q_stack := []; q_pend := []; q_stale := false; q_orphan := false; q_modal := false |}.
+Definition pend_remove (n : nat) (l : list (nat * nat)) : list (nat * nat) := filter (fun p => negb (fst p =? n)%nat) l.
+Definition pend_of (scr : nat) (l : list (nat * nat)) : bool := existsb (fun p => (snd p =? scr)%nat) l.
 
-Definition chk_C05_input (w : sworld) (e : event) : bool :=
-  match e with EUser tag a _ => if (tag =? T_INPUT)%nat then scr_visible w (nth0 a 0) else true | _ => true end.
-
-Lemma chk_C05_gen_split strict w e : chk_C05_gen strict w e = chk_C05_shield_gen strict w e && chk_C05_input w e.
-Proof.
-  destruct e; try reflexivity. cbn [chk_C05_gen chk_C05_shield_gen chk_C05_input].
-  destruct ((tag =? T_SETUP)%nat || (tag =? T_REFRESH)%nat || (tag =? T_SHOW)%nat) eqn:E1.
-  - destruct (tag =? T_INPUT)%nat eqn:E2; [|rewrite andb_true_r; reflexivity].
-    apply Nat.eqb_eq in E2; subst tag. discriminate E1.
-  - destruct (tag =? T_INPUT)%nat eqn:E2; [|rewrite andb_true_r; reflexivity].
-    apply Nat.eqb_eq in E2; subst tag. reflexivity.
-Qed.
-
-(* ---- the hypothesis of the strict form, decided on the trace: no force_quit, and no nested loop is
-   entered while the stop flag is cleared (finding F13) ---- *)
-Record hst := { h_ok : bool; h_rl : bool }.
-Definition hyp_step (h : hst) (e : event) : hst :=
-  match e with
-  | EForceQuit => {| h_ok := false; h_rl := false |}
-  | ENewLoopEnter _ => {| h_ok := h_ok h && h_rl h; h_rl := h_rl h |}
-  | EClosePop _ => {| h_ok := h_ok h; h_rl := false |}
-  | ENewLoopReturn _ | ERunEnter => {| h_ok := h_ok h; h_rl := true |}
-  | _ => h
-  end.
-Definition hyp_of (t : list event) : hst := fold_left hyp_step t {| h_ok := true; h_rl := true |}.
-Definition no_f13 (t : list event) : bool := h_ok (hyp_of t).
-
-Lemma hyp_step_mono h e : h_ok (hyp_step h e) = true -> h_ok h = true.
-Proof. destruct e; cbn; auto; try discriminate. intros H; apply andb_true_iff in H; tauto. Qed.
-
-Lemma srun_mon_snoc chk t : forall w i e,
-  srun_mon chk w (t ++ [e]) i = None <-> srun_mon chk w t i = None /\ chk (fold_left sworld_step t w) e = true.
-Proof.
-  induction t as [|x r IH]; intros w i e; cbn [app srun_mon fold_left].
-  - destruct (chk w e); split; auto; try discriminate. intros [_ H]; discriminate H.
-  - destruct (chk w x); [apply IH|]. split; [discriminate|]. intros [H _]; discriminate H.
-Qed.
-
-Lemma sok_iff chk typed t : sok chk typed t = true <-> srun_mon chk (sworld0 typed) t 0 = None.
-Proof. unfold sok. destruct (srun_mon chk (sworld0 typed) t 0); split; congruence. Qed.
-
-Definition bal (o : outcome) : bool := match o with ONormal | OThrow XError => true | _ => false end.
-
-Definition is_user (e : event) : bool := match e with EUser _ _ _ => true | _ => false end.
-
-Definition vsame (w w' : sworld) : Prop :=
-  sw_stack w' = sw_stack w /\ sw_modal w' = sw_modal w /\ sw_replaced w' = sw_replaced w /\
-  (sw_expect w' = sw_expect w \/ sw_expect w' = []).
-
-Lemma step_loop_vsame w e : is_user e = false -> vsame w (sworld_step w e).
-Proof.
-  intros N. destruct e; try discriminate N; cbn [sworld_step]; unfold vsame;
-  repeat match goal with
-         | |- context [if ?b then _ else _] => destruct b
-         | |- context [match ?x with _ => _ end] => destruct x
-         end; cbn; auto.
-Qed.
-
-Definition inert_tag (tag : nat) : bool :=
-  negb ((tag =? T_OP)%nat || (tag =? T_STACK)%nat || (tag =? T_MODAL_RETURN)%nat).
-
-Lemma step_inert_vsame w tag a text : inert_tag tag = true -> vsame w (user_step w tag a text).
-Proof.
-  unfold inert_tag. intros N. apply negb_true_iff in N. apply orb_false_iff in N. destruct N as [N N3].
-  apply orb_false_iff in N. destruct N as [N1 N2].
-  unfold user_step. rewrite N1, N2, N3. unfold vsame.
-  repeat match goal with
-         | |- context [if ?b then _ else _] => destruct b
-         | |- context [match ?x with _ => _ end] => destruct x
-         end; cbn; auto.
-Qed.
-
-Definition e_of (d : sdata) : entry := {| en_id := sd_id d; en_scr := sd_scr d; en_args := sd_args d; en_modal := sd_modal d |}.
-Definition sargs (k : nat) (d : sdata) : list nat := [k; sd_id d; sd_scr d; sd_args d; b2n (sd_modal d)].
-
-Lemma b2n_eqb b : (b2n b =? 1)%nat = b. Proof. destruct b; reflexivity. Qed.
-
-Lemma us_op w k scr ar text : let w' := user_step w T_OP [k; scr; ar] text in
-  sw_stack w' = sw_stack w /\ sw_modal w' = sw_modal w /\ sw_replaced w' = sw_replaced w /\
-  sw_expect w' =
-    let nonempty := match sw_stack w with [] => false | _ => true end in
-    if (k =? O_SCHEDULE)%nat then [XAddFirst scr ar]
-    else if (k =? O_PUSH)%nat then [XAppend scr ar (Some false)]
-    else if (k =? O_PUSH_MODAL)%nat then [XAppend scr ar (Some true)]
-    else if (k =? O_REPLACE)%nat then (if nonempty then [XPop false; XAppend scr ar None] else [])
-    else (if nonempty then [XPop true] else []).
-Proof. cbn. repeat split. Qed.
-
-Definition close_cur (id : nat) (l : list mframe) : list mframe :=
-  map (fun f => if (mf_cur f =? id)%nat then f <| mf_closed := true |> else f) l.
-Definition rename_cur (old new : nat) (l : list mframe) : list mframe :=
-  map (fun f => if (mf_cur f =? old)%nat then f <| mf_cur := new |> else f) l.
-
-Lemma us_append w d text : let w' := user_step w T_STACK (sargs K_APPEND d) text in
-  sw_stack w' = e_of d :: sw_stack w /\ sw_expect w' = tl (sw_expect w) /\ sw_replaced w' = None /\
-  sw_modal w' = match sw_replaced w with
-                | Some old => rename_cur old (sd_id d) (sw_modal w)
-                | None => if sd_modal d then {| mf_orig := sd_id d; mf_cur := sd_id d; mf_closed := false |} :: sw_modal w
-                          else sw_modal w
-                end.
-Proof.
-  unfold sargs. cbn. rewrite b2n_eqb. fold (e_of d).
-  destruct (sw_replaced w) eqn:R; cbn; [repeat split|].
-  destruct d as [i sc ar m]; cbn. destruct m; cbn; rewrite ?R; repeat split.
-Qed.
-
-Lemma us_addfirst w d text : let w' := user_step w T_STACK (sargs K_ADD_FIRST d) text in
-  sw_stack w' = sw_stack w ++ [e_of d] /\ sw_expect w' = tl (sw_expect w) /\ sw_replaced w' = sw_replaced w /\
-  sw_modal w' = sw_modal w.
-Proof. unfold sargs. cbn. rewrite b2n_eqb. fold (e_of d). repeat split. Qed.
-
-Lemma us_pop w d text : let w' := user_step w T_STACK (sargs K_POP d) text in
-  sw_stack w' = tl (sw_stack w) /\
-  match sw_expect w with
-  | XPop true :: r => sw_expect w' = r /\ sw_replaced w' = sw_replaced w /\ sw_modal w' = close_cur (sd_id d) (sw_modal w)
-  | XPop false :: r => sw_expect w' = r /\ sw_replaced w' = Some (sd_id d) /\ sw_modal w' = sw_modal w
-  | _ => sw_expect w' = sw_expect w /\ sw_replaced w' = sw_replaced w /\ sw_modal w' = close_cur (sd_id d) (sw_modal w)
-  end.
-Proof.
-  unfold sargs. cbn. destruct (sw_expect w) as [|[[|]| |] r] eqn:E; cbn; rewrite ?E; repeat split.
-Qed.
-
-Lemma us_modal_return w id scr text : let w' := user_step w T_MODAL_RETURN [id; scr] text in
-  sw_stack w' = sw_stack w /\ sw_expect w' = sw_expect w /\ sw_replaced w' = sw_replaced w /\
-  sw_modal w' = remove_first (fun f => (mf_orig f =? id)%nat) (sw_modal w).
-Proof. cbn. repeat split. Qed.
-
-(* ---- lists of frames ---- *)
-Definition openf (f : mframe) : bool := negb (mf_closed f).
-Definition ofc (l : list mframe) : list nat := map mf_cur (filter openf l).
-Definition mei (st : list entry) : list nat := map en_id (filter en_modal st).
-Definition head_closed (l : list mframe) : Prop := match l with [] => True | f :: _ => mf_closed f = true end.
-Definition frame_le (f f' : mframe) : Prop := mf_orig f = mf_orig f' /\ (mf_closed f = true -> mf_closed f' = true).
-
-Lemma frame_le_refl f : frame_le f f. Proof. split; auto. Qed.
-Lemma frames_le_refl l : Forall2 frame_le l l.
-Proof. induction l; constructor; auto using frame_le_refl. Qed.
-Lemma frames_le_trans l1 : forall l2 l3, Forall2 frame_le l1 l2 -> Forall2 frame_le l2 l3 -> Forall2 frame_le l1 l3.
-Proof.
-  induction l1 as [|a r IH]; intros l2 l3 H12 H23.
-  - inversion H12; subst. inversion H23; subst. constructor.
-  - inversion H12 as [|a' b l l' Hab Hr]; subst. inversion H23 as [|b' c m m' Hbc Hr']; subst. constructor.
-    + destruct Hab as [E1 C1], Hbc as [E2 C2]. split; [congruence|auto].
-    + eapply IH; eauto.
-Qed.
-Lemma frames_le_map (g : mframe -> mframe) l : (forall f, frame_le f (g f)) -> Forall2 frame_le l (map g l).
-Proof. intros H. induction l; cbn; constructor; auto. Qed.
-Lemma frames_le_close id l : Forall2 frame_le l (close_cur id l).
-Proof. apply frames_le_map. intros f. destruct (mf_cur f =? id)%nat; [split; cbn; auto|apply frame_le_refl]. Qed.
-Lemma frames_le_rename o n l : Forall2 frame_le l (rename_cur o n l).
-Proof. apply frames_le_map. intros f. destruct (mf_cur f =? o)%nat; [split; cbn; auto|apply frame_le_refl]. Qed.
-
-Definition Relw (b : bool) (w w' : sworld) : Prop :=
-  exists new old', sw_modal w' = new ++ old' /\ Forall2 frame_le (sw_modal w) old' /\ (b = true -> new = []).
-
-Lemma Relw_refl b w : Relw b w w.
-Proof. exists [], (sw_modal w). split; [reflexivity|split; [apply frames_le_refl|auto]]. Qed.
-Lemma Relw_modal b w w' : Forall2 frame_le (sw_modal w) (sw_modal w') -> Relw b w w'.
-Proof. intros H. exists [], (sw_modal w'). split; [reflexivity|split; auto]. Qed.
-Lemma Relw_trans b1 b2 w w1 w2 : Relw b1 w w1 -> Relw b2 w1 w2 -> Relw (b1 && b2) w w2.
-Proof.
-  intros (n1 & o1 & E1 & F1 & B1) (n2 & o2 & E2 & F2 & B2). rewrite E1 in F2.
-  apply Forall2_app_inv_l in F2. destruct F2 as (o2a & o2b & Fa & Fb & ->).
-  exists (n2 ++ o2a), o2b. split; [rewrite E2, app_assoc; reflexivity|]. split; [eapply frames_le_trans; eauto|].
-  intros B. apply andb_true_iff in B. destruct B as [T1 T2]. rewrite (B2 T2). rewrite (B1 T1) in Fa. inversion Fa. reflexivity.
-Qed.
-Lemma Relw_weaken b w w' : Relw true w w' -> Relw b w w'.
-Proof. intros (n & o & E & F & B). exists n, o. split; [exact E|split; [exact F|intros _; auto]]. Qed.
-Lemma Relw_trans_l b w w1 w2 : Relw true w w1 -> Relw b w1 w2 -> Relw b w w2.
-Proof. intros H1 H2. exact (Relw_trans true b _ _ _ H1 H2). Qed.
-Lemma Relw_trans_r b w w1 w2 : Relw b w w1 -> Relw true w1 w2 -> Relw b w w2.
-Proof. intros H1 H2. pose proof (Relw_trans b true _ _ _ H1 H2) as H. rewrite andb_true_r in H. exact H. Qed.
-Lemma Relw_head_closed w w' : Relw true w w' -> head_closed (sw_modal w) -> head_closed (sw_modal w').
-Proof.
-  intros (n & o & E & F & B) H. rewrite (B eq_refl) in E. cbn in E. rewrite E.
-  destruct F as [|f f' l l' [_ Hc] _]; cbn in *; auto.
-Qed.
-
-Lemma ofc_close id l : ofc (close_cur id l) = filter (fun c => negb (c =? id)%nat) (ofc l).
-Proof.
-  unfold ofc, close_cur, openf. induction l as [|f r IH]; cbn; [reflexivity|].
-  destruct (mf_cur f =? id)%nat eqn:E; cbn.
-  - destruct (mf_closed f); cbn; rewrite ?E; cbn; exact IH.
-  - destruct (mf_closed f); cbn; rewrite ?E; cbn; [exact IH|f_equal; exact IH].
-Qed.
-Lemma ofc_rename o n l : ofc (rename_cur o n l) = map (fun c => if (c =? o)%nat then n else c) (ofc l).
-Proof.
-  unfold ofc, rename_cur, openf. induction l as [|f r IH]; cbn; [reflexivity|].
-  destruct (mf_cur f =? o)%nat eqn:E; cbn; destruct (mf_closed f); cbn; rewrite ?E; try exact IH; f_equal; exact IH.
-Qed.
-Lemma ofc_remove_closed p l f : find p l = Some f -> mf_closed f = true -> ofc (remove_first p l) = ofc l.
-Proof.
-  unfold ofc. induction l as [|x r IH]; cbn; [discriminate|].
-  destruct (p x) eqn:P.
-  - intros H C. injection H as ->. unfold openf at 2. rewrite C. reflexivity.
-  - intros H C. cbn. destruct (openf x); cbn; [f_equal|]; apply IH; assumption.
-Qed.
-Lemma filter_noop {A} (p : A -> bool) l : (forall x, In x l -> p x = true) -> filter p l = l.
-Proof. induction l as [|a r IH]; cbn; intros H; [reflexivity|]. rewrite (H a (or_introl eq_refl)). f_equal. apply IH. auto. Qed.
-Lemma map_noop {A} (g : A -> A) l : (forall x, In x l -> g x = x) -> map g l = l.
-Proof. induction l as [|a r IH]; cbn; intros H; [reflexivity|]. rewrite (H a (or_introl eq_refl)). f_equal. apply IH. auto. Qed.
-Lemma mei_in x st : In x (mei st) -> In x (map en_id st).
-Proof.
-  unfold mei. intros H. apply in_map_iff in H. destruct H as (e & <- & He). apply filter_In in He. apply in_map, He.
-Qed.
-Lemma mei_app st e : en_modal e = false -> mei (st ++ [e]) = mei st.
-Proof. intros H. unfold mei. rewrite filter_app. cbn. rewrite H. rewrite app_nil_r. reflexivity. Qed.
-Lemma map_e_of_id l : map en_id (map e_of l) = map sd_id l.
-Proof. rewrite map_map. reflexivity. Qed.
-
-
-(* ================================================================ what lies beneath a modal frame *)
-(* [below w f]: the entries strictly beneath the current entry of frame [f] (in the middle of a replace,
-   when the entry has just been popped: the whole stack) *)
-Definition entry_eqb (a b : entry) : bool :=
-  (en_id a =? en_id b)%nat && (en_scr a =? en_scr b)%nat && (en_args a =? en_args b)%nat && Bool.eqb (en_modal a) (en_modal b).
-Fixpoint is_prefix (a b : list entry) : bool :=
-  match a, b with
-  | [], _ => true
-  | x :: r, y :: r' => entry_eqb x y && is_prefix r r'
-  | _ :: _, [] => false
-  end.
-Fixpoint beneath (st : list entry) (id : nat) : list entry :=
-  match st with [] => [] | e :: r => if (en_id e =? id)%nat then r else beneath r id end.
-Definition below (w : sworld) (f : mframe) : list entry :=
-  match sw_replaced w with
-  | Some old => if (old =? mf_cur f)%nat then sw_stack w else beneath (sw_stack w) (mf_cur f)
-  | None => beneath (sw_stack w) (mf_cur f)
-  end.
-(* every stack primitive leaves what is beneath an open modal frame in place: for every frame open before
-   the event and still open after it, the entries beneath its current entry (it or what replaced it) are the
-   same, in the same order, with possibly more entries at the very bottom (add_first) *)
-Definition chk_C05_below (w : sworld) (e : event) : bool :=
+Definition hq_step (h : hq) (e : event) : hq :=
   match e with
   | EUser tag a _ =>
     if (tag =? T_STACK)%nat then
-      let w' := sworld_step w e in
-      forallb (fun f => mf_closed f ||
-                 match find (fun f' => (mf_orig f' =? mf_orig f)%nat) (sw_modal w') with
-                 | Some f' => mf_closed f' || is_prefix (below w f) (below w' f')
-                 | None => true
-                 end) (sw_modal w)
-    else true
-  | _ => true
+      let kind := nth0 a 0 in let scr := nth0 a 2 in let modal := (nth0 a 4 =? 1)%nat in
+      if (kind =? K_APPEND)%nat then
+        h <| q_stack := (scr, modal) :: q_stack h |>
+          <| q_modal := q_modal h || (modal && negb (match q_pend h with [] => true | _ => false end)) |>
+      else if (kind =? K_ADD_FIRST)%nat then h <| q_stack := q_stack h ++ [(scr, false)] |>
+      else h <| q_stack := tl (q_stack h) |> <| q_orphan := q_orphan h || pend_of scr (q_pend h) |>
+    else if (tag =? T_REQ)%nat then
+      let scr := nth0 a 0 in
+      h <| q_stale := q_stale h || negb (match q_stack h with (s, _) :: _ => (s =? scr)%nat | [] => false end) |>
+        <| q_pend := (nth0 a 2, scr) :: q_pend h |>
+    else if (tag =? T_READY)%nat then
+      if (nth0 a 1 =? 1)%nat then h <| q_pend := pend_remove (nth0 a 0) (q_pend h) |> else h
+    else h
+  | _ => h
   end.
+Definition hq_of (t : list event) : hq := fold_left hq_step t hq0.
+Definition hqok (h : hq) : bool := negb (q_stale h || q_orphan h || q_modal h).
 
-Lemma entry_eqb_refl a : entry_eqb a a = true.
-Proof. unfold entry_eqb. rewrite !Nat.eqb_refl, eqb_reflx. reflexivity. Qed.
-Lemma is_prefix_app a x : is_prefix a (a ++ x) = true.
-Proof. induction a as [|e r IH]; cbn; [reflexivity|]. rewrite entry_eqb_refl, IH. reflexivity. Qed.
-Lemma is_prefix_refl a : is_prefix a a = true.
-Proof. rewrite <- (app_nil_r a) at 2. apply is_prefix_app. Qed.
+(* a prompt is issued only on behalf of the screen of the top entry *)
+Definition no_stale_prompt (t : list event) : bool := negb (q_stale (hq_of t)).
+(* no entry of a screen is popped (closed, replaced, discarded) while a request of that screen is unanswered *)
+Definition no_orphan_prompt (t : list event) : bool := negb (q_orphan (hq_of t)).
+(* no modal screen is pushed while a request is unanswered *)
+Definition no_modal_during_prompt (t : list event) : bool := negb (q_modal (hq_of t)).
 
-Lemma beneath_cons_ne e st id : en_id e <> id -> beneath (e :: st) id = beneath st id.
-Proof. intros H. cbn. apply Nat.eqb_neq in H. rewrite H. reflexivity. Qed.
-Lemma beneath_cons_eq e st : beneath (e :: st) (en_id e) = st.
-Proof. cbn. rewrite Nat.eqb_refl. reflexivity. Qed.
-Lemma beneath_app st x id : In id (map en_id st) -> beneath (st ++ x) id = beneath st id ++ x.
+Lemma hqok_split t : hqok (hq_of t) = no_stale_prompt t && no_orphan_prompt t && no_modal_during_prompt t.
+Proof. unfold hqok, no_stale_prompt, no_orphan_prompt, no_modal_during_prompt. destruct (q_stale _), (q_orphan _), (q_modal _); reflexivity. Qed.
+
+Lemma hq_step_mono h e : hqok (hq_step h e) = true -> hqok h = true.
 Proof.
-  induction st as [|e r IH]; cbn; [tauto|]. destruct (en_id e =? id)%nat eqn:E; [reflexivity|].
-  intros [H|H]; [apply Nat.eqb_neq in E; contradiction|apply IH, H].
+  unfold hqok. destruct e; try (cbn; auto; fail). cbn [hq_step]. intros H.
+  destruct (q_stale h) eqn:E1, (q_orphan h) eqn:E2, (q_modal h) eqn:E3; try reflexivity; exfalso;
+    repeat match type of H with context [if ?b then _ else _] => destruct b end;
+    cbn in H; rewrite ?E1, ?E2, ?E3 in H; cbn in H; rewrite ?orb_true_r in H; cbn in H; discriminate H.
 Qed.
+Lemma hq_step_loop h e : is_user e = false -> hq_step h e = h.
+Proof. destruct e; try reflexivity. discriminate. Qed.
 
-Lemma find_orig_map (g : mframe -> mframe) l f : (forall x, mf_orig (g x) = mf_orig x) -> NoDup (map mf_orig l) -> In f l ->
-  find (fun f' => (mf_orig f' =? mf_orig f)%nat) (map g l) = Some (g f).
-Proof.
-  intros Hg. induction l as [|x r IH]; cbn; intros N H; [destruct H|]. inversion N as [|? ? Nx Nr]; subst.
-  rewrite Hg. destruct H as [->|H]; [rewrite Nat.eqb_refl; reflexivity|].
-  destruct (mf_orig x =? mf_orig f)%nat eqn:E; [|apply IH; assumption].
-  apply Nat.eqb_eq in E. exfalso. apply Nx. rewrite E. apply in_map, H.
-Qed.
-Lemma find_orig_self l f : NoDup (map mf_orig l) -> In f l -> find (fun f' => (mf_orig f' =? mf_orig f)%nat) l = Some f.
-Proof. intros N H. rewrite <- (map_id l) at 1. apply (find_orig_map (fun x => x)); auto. Qed.
+Lemma chk_input_other w tag a t : (tag =? T_INPUT)%nat = false -> chk_C05_input w (EUser tag a t) = true.
+Proof. intros H. cbn [chk_C05_input]. rewrite H. reflexivity. Qed.
+Lemma chk_input_loop w e : is_user e = false -> chk_C05_input w e = true.
+Proof. destruct e; try reflexivity. discriminate. Qed.
 
-Lemma chk_below_not_stack w tag a t : (tag =? T_STACK)%nat = false -> chk_C05_below w (EUser tag a t) = true.
-Proof. intros H. cbn [chk_C05_below]. rewrite H. reflexivity. Qed.
-
-Lemma chk_below_intro w a t :
-  (forall f, In f (sw_modal w) -> mf_closed f = false ->
-     exists f', find (fun f' => (mf_orig f' =? mf_orig f)%nat) (sw_modal (user_step w T_STACK a t)) = Some f' /\
-                (mf_closed f' = true \/ exists x, below (user_step w T_STACK a t) f' = below w f ++ x)) ->
-  chk_C05_below w (EUser T_STACK a t) = true.
-Proof.
-  intros H. cbn [chk_C05_below sworld_step]. rewrite Nat.eqb_refl. cbv zeta. apply forallb_forall. intros f Hf.
-  destruct (mf_closed f) eqn:C; [reflexivity|]. cbn [orb].
-  destruct (H f Hf C) as (f' & -> & [C'|[x E]]); [rewrite C'; reflexivity|].
-  rewrite E, is_prefix_app. apply orb_true_r.
-Qed.
-
-(* the frames' side of the invariant *)
-Definition frames_on (w : sworld) : Prop :=
-  forall f, In f (sw_modal w) -> mf_closed f = false -> In (mf_cur f) (map en_id (sw_stack w)).
-
-Lemma below_append_new w d t :
-  sw_replaced w = None -> NoDup (map mf_orig (sw_modal w)) -> frames_on w ->
-  ~ In (sd_id d) (map en_id (sw_stack w)) -> ~ In (sd_id d) (map mf_orig (sw_modal w)) ->
-  chk_C05_below w (EUser T_STACK (sargs K_APPEND d) t) = true.
-Proof.
-  intros R N On Fr Fo. apply chk_below_intro. intros f Hf C.
-  destruct (us_append w d t) as (P1 & P2 & P3 & P4). rewrite R in P4.
-  exists f. split.
-  - rewrite P4. destruct (sd_modal d); [|apply find_orig_self; assumption]. cbn [find mf_orig].
-    destruct (sd_id d =? mf_orig f)%nat eqn:E; [|apply find_orig_self; assumption].
-    apply Nat.eqb_eq in E. exfalso. apply Fo. rewrite E. apply in_map, Hf.
-  - right. exists []. rewrite app_nil_r. unfold below. rewrite P3, R, P1.
-    apply beneath_cons_ne. cbn [e_of en_id]. intros E. apply Fr. rewrite E. apply On; assumption.
-Qed.
-
-Lemma below_append_repl w d t old :
-  sw_replaced w = Some old -> NoDup (map mf_orig (sw_modal w)) ->
-  (forall f, In f (sw_modal w) -> mf_closed f = false -> mf_cur f = old \/ In (mf_cur f) (map en_id (sw_stack w))) ->
-  ~ In (sd_id d) (map en_id (sw_stack w)) -> ~ In old (map en_id (sw_stack w)) ->
-  chk_C05_below w (EUser T_STACK (sargs K_APPEND d) t) = true.
-Proof.
-  intros R N On Fr Fo. apply chk_below_intro. intros f Hf C.
-  destruct (us_append w d t) as (P1 & P2 & P3 & P4). rewrite R in P4.
-  exists (if (mf_cur f =? old)%nat then f <| mf_cur := sd_id d |> else f). split.
-  - rewrite P4. unfold rename_cur.
-    apply (find_orig_map (fun f0 => if (mf_cur f0 =? old)%nat then f0 <| mf_cur := sd_id d |> else f0)); auto.
-    intros x. destruct (mf_cur x =? old)%nat; reflexivity.
-  - right. exists []. rewrite app_nil_r. unfold below at 1. rewrite P3, P1. unfold below. rewrite R.
-    destruct (mf_cur f =? old)%nat eqn:E.
-    + apply Nat.eqb_eq in E. cbn [mf_cur set]. rewrite E, Nat.eqb_refl. apply (beneath_cons_eq (e_of d)).
-    + rewrite (Nat.eqb_sym old), E. apply beneath_cons_ne. cbn [e_of en_id]. intros E'.
-      destruct (On f Hf C) as [X|X]; [apply Nat.eqb_neq in E; contradiction|]. apply Fr. rewrite E'. exact X.
-Qed.
-
-Lemma below_addfirst w d t :
-  sw_replaced w = None -> NoDup (map mf_orig (sw_modal w)) -> frames_on w ->
-  chk_C05_below w (EUser T_STACK (sargs K_ADD_FIRST d) t) = true.
-Proof.
-  intros R N On. apply chk_below_intro. intros f Hf C.
-  destruct (us_addfirst w d t) as (P1 & P2 & P3 & P4).
-  exists f. split; [rewrite P4; apply find_orig_self; assumption|].
-  right. exists [e_of d]. unfold below. rewrite P3, R, P1. apply beneath_app. apply On; assumption.
-Qed.
-
-Lemma below_pop w d t e r :
-  sw_replaced w = None -> NoDup (map mf_orig (sw_modal w)) -> frames_on w ->
-  sw_stack w = e :: r -> en_id e = sd_id d ->
-  chk_C05_below w (EUser T_STACK (sargs K_POP d) t) = true.
-Proof.
-  intros R N On St Ed. apply chk_below_intro. intros f Hf C.
-  destruct (us_pop w d t) as (Q1 & Q2). rewrite St in Q1. cbn [tl] in Q1.
-  assert (CL : forall f0, mf_orig (if (mf_cur f0 =? sd_id d)%nat then f0 <| mf_closed := true |> else f0) = mf_orig f0)
-    by (intros f0; destruct (mf_cur f0 =? sd_id d)%nat; reflexivity).
-  assert (NE : mf_cur f <> sd_id d -> beneath r (mf_cur f) = beneath (sw_stack w) (mf_cur f)).
-  { intros X. rewrite St. symmetry. apply beneath_cons_ne. congruence. }
-  destruct (sw_expect w) as [|[[|]| |] rest].
-  - (* the discard after a failed setup *)
-    destruct Q2 as (Q2 & Q3 & Q4).
-    exists (if (mf_cur f =? sd_id d)%nat then f <| mf_closed := true |> else f). split.
-    + rewrite Q4. unfold close_cur. apply (find_orig_map _ _ _ CL); assumption.
-    + destruct (mf_cur f =? sd_id d)%nat eqn:E; [left; reflexivity|right]. apply Nat.eqb_neq in E.
-      exists []. rewrite app_nil_r. unfold below. rewrite Q3, R, Q1. apply NE, E.
-  - destruct Q2 as (Q2 & Q3 & Q4).
-    exists (if (mf_cur f =? sd_id d)%nat then f <| mf_closed := true |> else f). split.
-    + rewrite Q4. unfold close_cur. apply (find_orig_map _ _ _ CL); assumption.
-    + destruct (mf_cur f =? sd_id d)%nat eqn:E; [left; reflexivity|right]. apply Nat.eqb_neq in E.
-      exists []. rewrite app_nil_r. unfold below. rewrite Q3, R, Q1. apply NE, E.
-  - (* the pop of a replace *)
-    destruct Q2 as (Q2 & Q3 & Q4). exists f. split; [rewrite Q4; apply find_orig_self; assumption|].
-    right. exists []. rewrite app_nil_r. unfold below. rewrite Q3, R, Q1.
-    destruct (sd_id d =? mf_cur f)%nat eqn:E.
-    + apply Nat.eqb_eq in E. rewrite St, <- E, <- Ed. symmetry. apply beneath_cons_eq.
-    + apply NE. apply Nat.eqb_neq in E. congruence.
-  - destruct Q2 as (Q2 & Q3 & Q4).
-    exists (if (mf_cur f =? sd_id d)%nat then f <| mf_closed := true |> else f). split.
-    + rewrite Q4. unfold close_cur. apply (find_orig_map _ _ _ CL); assumption.
-    + destruct (mf_cur f =? sd_id d)%nat eqn:E; [left; reflexivity|right]. apply Nat.eqb_neq in E.
-      exists []. rewrite app_nil_r. unfold below. rewrite Q3, R, Q1. apply NE, E.
-  - destruct Q2 as (Q2 & Q3 & Q4).
-    exists (if (mf_cur f =? sd_id d)%nat then f <| mf_closed := true |> else f). split.
-    + rewrite Q4. unfold close_cur. apply (find_orig_map _ _ _ CL); assumption.
-    + destruct (mf_cur f =? sd_id d)%nat eqn:E; [left; reflexivity|right]. apply Nat.eqb_neq in E.
-      exists []. rewrite app_nil_r. unfold below. rewrite Q3, R, Q1. apply NE, E.
-Qed.
+(* the screen has a stack entry with no modal entry above it *)
+Definition clear_entry (st : list (nat * bool)) (scr : nat) : Prop :=
+  exists above b below, st = above ++ (scr, b) :: below /\ forallb (fun p => negb (snd p)) above = true.
 
 Section Screen.
 Variable specs : nat -> screen_spec.
@@ -427,6 +95,12 @@ Lemma SW_emit e s : SW (emit e s) = sworld_step (SW s) e.
 Proof. unfold SW, SWt, emit. cbn. rewrite fold_left_app. reflexivity. Qed.
 Lemma HH_emit e s : HH (emit e s) = hyp_step (HH s) e.
 Proof. unfold HH, Ht, hyp_of, emit. cbn. rewrite fold_left_app. reflexivity. Qed.
+Definition Hqt (t : list event) : hq := hq_of (rev t).
+Definition HQ s : hq := Hqt (trace s).
+Lemma HQ_emit e s : HQ (emit e s) = hq_step (HQ s) e.
+Proof. unfold HQ, Hqt, hq_of, emit. cbn. rewrite fold_left_app. reflexivity. Qed.
+Lemma Hqt_cons e t : Hqt (e :: t) = hq_step (Hqt t) e.
+Proof. unfold Hqt, hq_of. cbn [rev]. rewrite fold_left_app. reflexivity. Qed.
 
 Definition accb (chk : sworld -> event -> bool) (t : list event) : Prop :=
   srun_mon chk (sworld0 typed) (rev t) 0 = None.
@@ -438,24 +112,29 @@ Definition chkS := chk_C05_shield_gen true.
 
 (* what holds at every moment, even when the fuel runs out in the middle of an operation *)
 Definition At (t : list event) : Prop :=
-  accb chkP t /\ (h_ok (Ht t) = true -> accb chkS t) /\ accb chk_C05_below t.
+  accb chkP t /\ (h_ok (Ht t) = true -> accb chkS t) /\ accb chk_C05_below t /\
+  (hqok (Hqt t) = true -> accb chk_C05_input t).
 Definition A s : Prop := At (trace s).
 
 Lemma A_emit e s : A s -> chkP (SW s) e = true ->
   (h_ok (HH s) = true -> h_ok (hyp_step (HH s) e) = true -> chkS (SW s) e = true) ->
-  chk_C05_below (SW s) e = true -> A (emit e s).
+  chk_C05_below (SW s) e = true ->
+  (hqok (HQ s) = true -> hqok (hq_step (HQ s) e) = true -> chk_C05_input (SW s) e = true) -> A (emit e s).
 Proof.
-  intros (A1 & A2 & A3) C1 C2 C3. unfold A, At, emit. cbn [trace set]. split; [|split].
+  intros (A1 & A2 & A3 & A4) C1 C2 C3 C4. unfold A, At, emit. cbn [trace set]. split; [|split; [|split]].
   - apply accb_cons. split; assumption.
   - intros Hh. change (Ht (e :: trace s)) with (HH (emit e s)) in Hh. rewrite HH_emit in Hh.
     pose proof (hyp_step_mono _ _ Hh) as Hh0. apply accb_cons. split; [apply A2, Hh0|apply C2; assumption].
   - apply accb_cons. split; assumption.
+  - intros Hh. change (Hqt (e :: trace s)) with (HQ (emit e s)) in Hh. rewrite HQ_emit in Hh.
+    pose proof (hq_step_mono _ _ Hh) as Hh0. apply accb_cons. split; [apply A4, Hh0|apply C4; assumption].
 Qed.
 
 Lemma A_emit_loop e s : is_user e = false -> A s -> A (emit e s).
 Proof.
-  intros N HA. apply A_emit; [exact HA|destruct e; try reflexivity; discriminate| |destruct e; try reflexivity; discriminate].
-  intros _ _. destruct e; try reflexivity; discriminate.
+  intros N HA. apply A_emit; [exact HA|destruct e; try reflexivity; discriminate| |destruct e; try reflexivity; discriminate|].
+  - intros _ _. destruct e; try reflexivity; discriminate.
+  - intros _ _. apply chk_input_loop, N.
 Qed.
 
 Lemma A_trace s s' : trace s' = trace s -> A s -> A s'.
@@ -550,6 +229,17 @@ Qed.
 
 
 (* ================================================================ the invariant *)
+Definition ihs (u : sstate) : list (nat * bool) := map (fun h => (ih_owner h, ih_cb h)) (st_ih u).
+Definition stack_sm (u : sstate) : list (nat * bool) := map (fun d => (sd_scr d, sd_modal d)) (st_stack u).
+(* the current entry of an open frame is a modal entry *)
+Definition frames_modal (w : sworld) : Prop :=
+  forall f, In f (sw_modal w) -> mf_closed f = false -> exists e, In e (sw_stack w) /\ en_id e = mf_cur f /\ en_modal e = true.
+(* what holds as long as the three conditions on prompts do *)
+Record IQ s : Prop := {
+  i_stack : q_stack (HQ s) = stack_sm (ust s);
+  i_pc : forall n A, nth_error (ihs (ust s)) n = Some (A, true) -> In (n, A) (q_pend (HQ s));
+  i_ip : forall n A, In (n, A) (q_pend (HQ s)) -> clear_entry (q_stack (HQ s)) A }.
+
 Record Base s : Prop := {
   b_stack : sw_stack (SW s) = map e_of (st_stack (ust s));
   b_expect : sw_expect (SW s) = [];
@@ -558,7 +248,9 @@ Record Base s : Prop := {
   b_nodup : NoDup (map sd_id (st_stack (ust s)));
   b_on : frames_on (SW s);
   b_origs : NoDup (map mf_orig (sw_modal (SW s)));
-  b_orig_lt : Forall (fun f => mf_orig f < st_next_sd (ust s)) (sw_modal (SW s)) }.
+  b_orig_lt : Forall (fun f => mf_orig f < st_next_sd (ust s)) (sw_modal (SW s));
+  b_fmodal : frames_modal (SW s);
+  b_iq : hqok (HQ s) = true -> IQ s }.
 
 (* ... and what holds as long as the hypothesis of the strict form does *)
 Record Strict (g : bool) s : Prop := {
@@ -598,17 +290,18 @@ Qed.
 Record Keep s s' : Prop := {
   k_v : vsame (SW s) (SW s'); k_h : HH s' = HH s; k_A : A s -> A s';
   k_u1 : st_stack (ust s') = st_stack (ust s); k_u2 : st_next_sd (ust s') = st_next_sd (ust s);
-  k_rl : run_loop s' = run_loop s; k_fq : force_quit s' = force_quit s }.
+  k_rl : run_loop s' = run_loop s; k_fq : force_quit s' = force_quit s;
+  k_hq : HQ s' = HQ s; k_ih : ihs (ust s') = ihs (ust s) }.
 
 Lemma Keep_refl s : Keep s s.
 Proof. split; auto using vsame_refl. Qed.
 Lemma Keep_trans s s1 s2 : Keep s s1 -> Keep s1 s2 -> Keep s s2.
 Proof. intros [] []. split; try congruence; eauto using vsame_trans. Qed.
 Lemma Keep_same s s' : trace s' = trace s -> ust s' = ust s -> run_loop s' = run_loop s -> force_quit s' = force_quit s -> Keep s s'.
-Proof. intros T U R F. split; auto; unfold SW, HH, A; rewrite ?T, ?U; auto using vsame_refl. Qed.
+Proof. intros T U R F. split; auto; unfold SW, HH, HQ, A; rewrite ?T, ?U; auto using vsame_refl. Qed.
 Lemma Keep_wr s (g : sstate -> sstate) : st_stack (g (ust s)) = st_stack (ust s) -> st_next_sd (g (ust s)) = st_next_sd (ust s) ->
-  Keep s (s <| ust := g (ust s) |>).
-Proof. intros U1 U2. split; auto; try reflexivity. apply vsame_refl. Qed.
+  ihs (g (ust s)) = ihs (ust s) -> Keep s (s <| ust := g (ust s) |>).
+Proof. intros U1 U2 U3. split; auto; try reflexivity. apply vsame_refl. Qed.
 
 Definition neutral_ev (e : event) : bool :=
   match e with
@@ -623,6 +316,7 @@ Proof.
   - rewrite SW_emit. apply step_loop_vsame, neutral_not_user, N.
   - rewrite HH_emit. destruct e; try discriminate N; reflexivity.
   - apply A_emit_loop, neutral_not_user, N.
+  - rewrite HQ_emit. apply hq_step_loop, neutral_not_user, N.
 Qed.
 Lemma Keep_emit_r e s s1 : Keep s s1 -> neutral_ev e = true -> Keep s (emit e s1).
 Proof. intros K N. eapply Keep_trans; [exact K|apply Keep_emit, N]. Qed.
@@ -630,27 +324,31 @@ Lemma Keep_same_r s s1 s2 : Keep s s1 -> trace s2 = trace s1 -> ust s2 = ust s1 
   force_quit s2 = force_quit s1 -> Keep s s2.
 Proof. intros K T U R F. eapply Keep_trans; [exact K|apply Keep_same; assumption]. Qed.
 
+Lemma IQ_transfer s s' : HQ s' = HQ s -> st_stack (ust s') = st_stack (ust s) -> ihs (ust s') = ihs (ust s) -> IQ s -> IQ s'.
+Proof. intros E U1 U3 [I1 I2 I3]. split; unfold stack_sm; rewrite ?E, ?U1, ?U3; auto. Qed.
 Lemma Base_transfer2 s s' : vsame (SW s) (SW s') -> st_stack (ust s') = st_stack (ust s) ->
-  st_next_sd (ust s') = st_next_sd (ust s) -> Base s -> Base s'.
+  st_next_sd (ust s') = st_next_sd (ust s) -> HQ s' = HQ s -> ihs (ust s') = ihs (ust s) -> Base s -> Base s'.
 Proof.
-  intros (V1 & V2 & V3 & V4) U1 U2 [B1 B2 B3 B4 B5 B6 B7 B8]. split; unfold frames_on; rewrite ?U1, ?U2, ?V1, ?V2, ?V3; auto.
-  destruct V4 as [V4|V4]; congruence.
+  intros (V1 & V2 & V3 & V4) U1 U2 E U3 [B1 B2 B3 B4 B5 B6 B7 B8 B9 B10].
+  split; unfold frames_on, frames_modal; rewrite ?U1, ?U2, ?V1, ?V2, ?V3, ?E; auto.
+  - destruct V4 as [V4|V4]; congruence.
+  - intros Hok. eapply IQ_transfer; eauto.
 Qed.
-Lemma Base_transfer s s' : vsame (SW s) (SW s') -> ust s' = ust s -> Base s -> Base s'.
-Proof. intros V U. apply Base_transfer2; [exact V|rewrite U; reflexivity|rewrite U; reflexivity]. Qed.
+Lemma Base_transfer s s' : vsame (SW s) (SW s') -> ust s' = ust s -> HQ s' = HQ s -> Base s -> Base s'.
+Proof. intros V U E. apply Base_transfer2; [exact V|rewrite U; reflexivity|rewrite U; reflexivity|exact E|rewrite U; reflexivity]. Qed.
 Lemma Keep_inv g s s' : Keep s s' -> InvG g s -> InvG g s'.
 Proof.
-  intros [V Hh _ U1 U2 R F] [B S]. split; [eapply Base_transfer2; eauto|].
+  intros [V Hh _ U1 U2 R F E U3] [B S]. split; [eapply Base_transfer2; eauto|].
   rewrite Hh. intros Hok. destruct (S Hok) as [S1 S2 S3 S4]. destruct V as (V1 & V2 & _).
   split; rewrite ?Hh, ?R, ?F, ?V1, ?V2; auto.
 Qed.
 Lemma Keep_rel s s' : Keep s s' -> Rel true s s'.
 Proof.
-  intros [V Hh _ _ _ _ _]. destruct V as (_ & V2 & _). split; [|rewrite Hh; auto].
+  intros [V Hh _ _ _ _ _ _ _]. destruct V as (_ & V2 & _). split; [|rewrite Hh; auto].
   apply Relw_modal. rewrite V2. apply frames_le_refl.
 Qed.
 Lemma Keep_modal s s' : Keep s s' -> sw_modal (SW s') = sw_modal (SW s).
-Proof. intros [V _ _ _ _ _ _]. apply V. Qed.
+Proof. intros [V _ _ _ _ _ _ _ _]. apply V. Qed.
 
 Lemma Keep_new_signal s sp : Keep s (snd (new_signal s sp)).
 Proof.
@@ -681,8 +379,9 @@ Qed.
 (* loop events that move the stop flag: the base part is never concerned *)
 Lemma Base_loop_emit e s s1 : is_user e = false -> trace s1 = trace s -> ust s1 = ust s -> Base s -> Base (emit e s1).
 Proof.
-  intros N T U B. eapply Base_transfer; [| |exact B]; [|exact U].
-  rewrite SW_emit. unfold SW. rewrite T. apply step_loop_vsame, N.
+  intros N T U B. apply (Base_transfer s); [|exact U| |exact B].
+  - rewrite SW_emit. unfold SW. rewrite T. apply step_loop_vsame, N.
+  - rewrite HQ_emit, (hq_step_loop _ _ N). unfold HQ. rewrite T. reflexivity.
 Qed.
 Lemma SW_loop_emit_modal e s s1 : is_user e = false -> trace s1 = trace s ->
   sw_modal (SW (emit e s1)) = sw_modal (SW s) /\ sw_stack (SW (emit e s1)) = sw_stack (SW s).
@@ -802,7 +501,7 @@ Proof.
       assert (Eh : HH sx = HH s) by (unfold HH; rewrite T; reflexivity).
       assert (RLx : force_quit s = false -> run_loop sx = true) by (intros F0; unfold sx; rewrite F0; reflexivity).
       split; [eapply A_trace; eauto|]. intros _. split; [|split].
-      * split; [apply (Base_transfer s sx); [rewrite Ew; apply vsame_refl|exact U|exact B]|].
+      * split; [apply (Base_transfer s sx); [rewrite Ew; apply vsame_refl|exact U|unfold HQ; rewrite T; reflexivity|exact B]|].
         rewrite Eh. intros Hok. destruct (St Hok) as [S1 S2 S3 S4].
         split; rewrite ?Ew, ?F, ?(RLx S1); auto; discriminate.
       * cbn [balc bal]. split; [rewrite Ew; apply Relw_refl|rewrite Eh; auto].
@@ -1012,7 +711,7 @@ Proof.
         assert (W5 : SW s5 = SW s4) by reflexivity. assert (H5 : HH s5 = HH s4) by reflexivity.
         assert (FQ5 : force_quit s5 = force_quit s4) by reflexivity.
         split; [exact A4|]. intros _. split; [|split; [split; [rewrite W5; apply R04|rewrite H5; apply R04]|exact I]].
-        split; [apply (Base_transfer s4 s5); [rewrite W5; apply vsame_refl|reflexivity|exact B4]|].
+        split; [apply (Base_transfer s4 s5); [rewrite W5; apply vsame_refl|reflexivity|reflexivity|exact B4]|].
         rewrite H5. intros Hok. pose proof Hok as Hok'. rewrite H4 in Hok'. cbn [hyp_step h_ok] in Hok'.
         destruct (S2 Hok') as [X1 X2 X3 X4].
         split; [rewrite FQ5, FQ4; exact X1|intros _; rewrite H5, H4; reflexivity|rewrite W5, M1, M2; exact X3|intros _ _; rewrite W5; apply HC4, Hok].
@@ -1122,23 +821,42 @@ Qed.
 Lemma std_rd n s k : std n s (k (ust s)) -> std n s (rd k).
 Proof. apply run_rd. Qed.
 
+Lemma Keep_ust s s' : trace s' = trace s -> st_stack (ust s') = st_stack (ust s) -> st_next_sd (ust s') = st_next_sd (ust s) ->
+  ihs (ust s') = ihs (ust s) -> run_loop s' = run_loop s -> force_quit s' = force_quit s -> Keep s s'.
+Proof. intros T U1 U2 U3 RL FQ. split; auto; unfold SW, HH, HQ, A; rewrite ?T; auto using vsame_refl. Qed.
 Lemma Inv_ust g s s' : trace s' = trace s -> st_stack (ust s') = st_stack (ust s) -> st_next_sd (ust s') = st_next_sd (ust s) ->
-  run_loop s' = run_loop s -> force_quit s' = force_quit s -> InvG g s -> InvG g s'.
+  ihs (ust s') = ihs (ust s) -> run_loop s' = run_loop s -> force_quit s' = force_quit s -> InvG g s -> InvG g s'.
+Proof. intros T U1 U2 U3 RL FQ. apply Keep_inv, Keep_ust; assumption. Qed.
+Lemma ihs_upd_ih m (f : ihandler -> ihandler) u :
+  (forall h, ih_owner (f h) = ih_owner h /\ ih_cb (f h) = ih_cb h) -> ihs (upd_ih m f u) = ihs u.
 Proof.
-  intros T U1 U2 RL FQ [[B1 B2 B3 B4 B5] St].
+  intros Hf. unfold ihs, upd_ih. cbn [st_ih set]. generalize (st_ih u) m. clear u m.
+  induction l as [|h r IH]; intros [|k]; cbn; auto.
+  - destruct (Hf h) as [-> ->]. reflexivity.
+  - rewrite IH. reflexivity.
+Qed.
+Lemma Inv_ih_weaken g s s' : trace s' = trace s -> st_stack (ust s') = st_stack (ust s) ->
+  st_next_sd (ust s') = st_next_sd (ust s) -> run_loop s' = run_loop s -> force_quit s' = force_quit s ->
+  (forall m A, nth_error (ihs (ust s')) m = Some (A, true) -> nth_error (ihs (ust s)) m = Some (A, true)) ->
+  InvG g s -> InvG g s'.
+Proof.
+  intros T U1 U2 RL FQ W [[B1 B2 B3 B4 B5 B6 B7 B8 B9 B10] St].
   assert (Ew : SW s' = SW s) by (unfold SW; rewrite T; reflexivity).
   assert (Eh : HH s' = HH s) by (unfold HH; rewrite T; reflexivity).
-  split; [split; rewrite ?Ew, ?U1, ?U2; assumption|]. rewrite Eh. intros Hok. destruct (St Hok) as [S1 S2 S3 S4].
-  split; rewrite ?Ew, ?Eh, ?RL, ?FQ; assumption.
+  assert (Eq : HQ s' = HQ s) by (unfold HQ; rewrite T; reflexivity).
+  split.
+  - split; rewrite ?Ew, ?U1, ?U2, ?Eq; auto. intros Hok. destruct (B10 Hok) as [I1 I2 I3].
+    split; unfold stack_sm; rewrite ?Eq, ?U1; auto.
+  - rewrite Eh. intros Hok. destruct (St Hok) as [S1 S2 S3 S4]. split; rewrite ?Ew, ?Eh, ?RL, ?FQ; assumption.
 Qed.
 Lemma Rel_same_trace s s' : trace s' = trace s -> Rel true s s'.
 Proof. intros T. unfold Rel, SW, HH. rewrite T. split; [apply Relw_refl|auto]. Qed.
 
 Lemma std_wr n s g : (forall u, st_stack (g u) = st_stack u) -> (forall u, st_next_sd (g u) = st_next_sd u) ->
-  Inv s -> std n s (wr g).
+  (forall u, ihs (g u) = ihs u) -> Inv s -> std n s (wr g).
 Proof.
-  intros G1 G2 HI. apply run_wr. split.
-  - eapply Inv_ust; [| | | | |exact HI]; try reflexivity; cbn; auto.
+  intros G1 G2 G3 HI. apply run_wr. split.
+  - eapply Inv_ust; [| | | | | |exact HI]; try reflexivity; cbn; auto.
   - apply Rel_same_trace. reflexivity.
 Qed.
 
@@ -1151,23 +869,35 @@ Proof.
   apply negb_true_iff in H1, H2. apply orb_false_iff in H1. destruct H1 as [_ H1].
   cbn [chk_C05_shield_gen]. rewrite H2, H1. reflexivity.
 Qed.
-Lemma Keep_user tag a t s : inert2 tag = true -> Keep s (emit (EUser tag a t) s).
+(* ... nor the prompts *)
+Definition inert3 (tag : nat) : bool :=
+  inert2 tag && negb ((tag =? T_REQ)%nat || (tag =? T_READY)%nat || (tag =? T_INPUT)%nat).
+Lemma hq_step_inert h tag a t : (tag =? T_STACK)%nat = false -> (tag =? T_REQ)%nat = false -> (tag =? T_READY)%nat = false ->
+  hq_step h (EUser tag a t) = h.
+Proof. intros E1 E2 E3. cbn [hq_step]. rewrite E1, E2, E3. reflexivity. Qed.
+Lemma Keep_user tag a t s : inert3 tag = true -> Keep s (emit (EUser tag a t) s).
 Proof.
-  intros H. pose proof H as H'. unfold inert2 in H'. apply andb_true_iff in H'. destruct H' as [H1 _].
-  split; [| | |reflexivity|reflexivity|reflexivity|reflexivity].
+  intros H3. unfold inert3 in H3. apply andb_true_iff in H3. destruct H3 as [H H3].
+  apply negb_true_iff in H3. apply orb_false_iff in H3. destruct H3 as [H3 E3]. apply orb_false_iff in H3. destruct H3 as [E1 E2].
+  pose proof H as H'. unfold inert2 in H'. apply andb_true_iff in H'. destruct H' as [H1 _].
+  assert (ES : (tag =? T_STACK)%nat = false).
+  { unfold inert_tag in H1. apply negb_true_iff in H1. apply orb_false_iff in H1.
+    destruct H1 as [H1 _]. apply orb_false_iff in H1. apply H1. }
+  split; [| | |reflexivity|reflexivity|reflexivity|reflexivity| |reflexivity].
   - rewrite SW_emit. apply step_inert_vsame, H1.
   - rewrite HH_emit. reflexivity.
-  - intros HA. apply A_emit; [exact HA|apply chk_inert2, H|intros _ _; apply chk_inert2, H|].
-    apply chk_below_not_stack. unfold inert_tag in H1. apply negb_true_iff in H1. apply orb_false_iff in H1.
-    destruct H1 as [H1 _]. apply orb_false_iff in H1. apply H1.
+  - intros HA. apply A_emit; [exact HA|apply chk_inert2, H|intros _ _; apply chk_inert2, H| |].
+    + apply chk_below_not_stack, ES.
+    + intros _ _. apply chk_input_other, E3.
+  - rewrite HQ_emit. apply hq_step_inert; assumption.
 Qed.
-Lemma std_evt n s tag a t : inert2 tag = true -> Inv s -> std n s (evt tag a t).
+Lemma std_evt n s tag a t : inert3 tag = true -> Inv s -> std n s (evt tag a t).
 Proof.
   intros H HI. unfold evt. apply run_emit.
   - apply (k_A _ _ (Keep_user tag a t s H)).
   - apply std_keep. exact (Keep_user tag a t s H). exact HI.
 Qed.
-Lemma std_ev n s tag a : inert2 tag = true -> Inv s -> std n s (ev tag a).
+Lemma std_ev n s tag a : inert3 tag = true -> Inv s -> std n s (ev tag a).
 Proof. apply std_evt. Qed.
 
 Lemma std_while n s c b : (forall s1, Inv s1 -> std n s1 b) -> Inv s -> std n s (PWhile c b).
@@ -1184,7 +914,8 @@ Ltac sstep L :=
   | |- std _ _ (PSeq _ _) => apply std_seq; [|let s1 := fresh "s" in let I1 := fresh "HI" in intros s1 I1]
   | |- std _ _ (PTry _ _) => apply std_try; [|let s1 := fresh "s" in let I1 := fresh "HI" in intros s1 I1]
   | |- std _ _ (rd _) => apply std_rd; cbv beta zeta
-  | |- std _ _ (wr _) => apply std_wr; [intros; reflexivity|intros; reflexivity|assumption]
+  | |- std _ _ (wr _) => apply std_wr; [intros; reflexivity|intros; reflexivity
+                                       |intros; first [reflexivity|apply ihs_upd_ih; intros; split; reflexivity]|assumption]
   | |- std _ _ (ev _ _) => apply std_ev; [reflexivity|assumption]
   | |- std _ _ (evt _ _ _) => apply std_evt; [reflexivity|assumption]
   | |- std _ _ PRet => apply std_ret; assumption
@@ -1225,9 +956,26 @@ Proof.
   repeat first [apply std_emit_ready; assumption|apply std_emit_failed_all; assumption|sstep L].
 Qed.
 
-Lemma std_new_input_handler s src owner cb k :
-  (forall m s1, Inv s1 -> std n s1 (k m)) -> Inv s -> std n s (new_input_handler src owner cb k).
-Proof. intros Hk HI. unfold new_input_handler. repeat first [apply Hk; assumption|sstep L]. Qed.
+Lemma nth_error_snoc_true (l : list (nat * bool)) o m A :
+  nth_error (l ++ [(o, false)]) m = Some (A, true) -> nth_error l m = Some (A, true).
+Proof.
+  revert m; induction l as [|x r IH]; intros [|m]; cbn; auto; try discriminate.
+  destruct m; discriminate.
+Qed.
+(* a handler without a callback (blocking requests) *)
+Lemma std_new_input_handler s src owner k :
+  (forall m s1, Inv s1 -> std n s1 (k m)) -> Inv s -> std n s (new_input_handler src owner false k).
+Proof.
+  intros Hk HI. unfold new_input_handler. apply std_rd. cbv beta zeta.
+  apply run_seq. apply run_wr. set (s1 := s <| ust := _ |>).
+  assert (I1 : Inv s1).
+  { apply (Inv_ih_weaken true s s1); try reflexivity; [|exact HI]. intros m A. unfold s1, ihs. cbn [ust set st_ih].
+    rewrite map_app. cbn [map ih_owner ih_cb]. apply nth_error_snoc_true. }
+  assert (R1 : Rel true s s1) by (apply Rel_same_trace; reflexivity). clearbody s1.
+  eapply run_conseq; [|intros o s' P; eapply std_post_l; [exact R1|exact P]].
+  change (std n s1 (PApi (ARegHandler CLS_READY (H_READY (length (st_ih (ust s)))) 0);; k (length (st_ih (ust s))))).
+  repeat first [apply Hk; assumption|sstep L].
+Qed.
 
 Lemma std_handler_get_input s m skip : Inv s -> std n s (handler_get_input m skip).
 Proof. intros HI. unfold handler_get_input. repeat first [apply std_start_input_thread; assumption|sstep L]. Qed.
@@ -1252,11 +1000,66 @@ Proof.
   intros HI. unfold handler_wait. sstep L. destruct (hlookup h (st_hobj (ust s))); repeat sstep L.
 Qed.
 
+Lemma SW_cons' s s' e : trace s' = e :: trace s -> SW s' = sworld_step (SW s) e.
+Proof. intros T. unfold SW, SWt. rewrite T. cbn [rev]. rewrite fold_left_app. reflexivity. Qed.
+Lemma HQ_cons s s' e : trace s' = e :: trace s -> HQ s' = hq_step (HQ s) e.
+Proof. intros T. unfold HQ. rewrite T. apply Hqt_cons. Qed.
+Lemma HH_cons_u s s' tag a t : trace s' = EUser tag a t :: trace s -> HH s' = HH s.
+Proof. intros T. unfold HH, Ht, hyp_of. rewrite T. cbn [rev]. rewrite fold_left_app. reflexivity. Qed.
+
+Lemma A_user_req a t s : A s -> A (emit (EUser T_REQ a t) s).
+Proof. intros HA. apply A_emit; [exact HA|reflexivity|intros _ _; reflexivity|reflexivity|intros _ _; reflexivity]. Qed.
+
+Lemma nth_error_snoc_cases (l : list (nat * bool)) x m y :
+  nth_error (l ++ [x]) m = Some y -> nth_error l m = Some y \/ (m = length l /\ y = x).
+Proof.
+  revert m; induction l as [|h r IH]; intros [|m]; cbn; auto.
+  - intros H. injection H as <-. right. auto.
+  - destruct m; discriminate.
+  - intros H. destruct (IH m H) as [X|[-> ->]]; auto.
+Qed.
+
+(* the prompt of a screen: the request is announced, the handler created *)
+Lemma Inv_req s s3 scr args :
+  trace s3 = EUser T_REQ [scr; args; length (st_ih (ust s))] [] :: trace s ->
+  st_stack (ust s3) = st_stack (ust s) -> st_next_sd (ust s3) = st_next_sd (ust s) ->
+  ihs (ust s3) = ihs (ust s) ++ [(scr, true)] -> run_loop s3 = run_loop s -> force_quit s3 = force_quit s ->
+  Inv s -> Inv s3 /\ Rel true s s3.
+Proof.
+  intros T U1 U2 U3 RL FQ [[B1 B2 B3 B4 B5 B6 B7 B8 B9 B10] St].
+  assert (V : vsame (SW s) (SW s3)) by (rewrite (SW_cons' _ _ _ T); apply step_inert_vsame; reflexivity).
+  assert (Eh : HH s3 = HH s) by (apply (HH_cons_u _ _ _ _ _ T)).
+  pose proof (HQ_cons _ _ _ T) as Eq. destruct V as (V1 & V2 & V3 & V4).
+  split; [|split; [apply Relw_modal; rewrite V2; apply frames_le_refl|rewrite Eh; auto]]. split.
+  - split; unfold frames_on, frames_modal; rewrite ?U1, ?U2, ?V1, ?V2, ?V3; auto; [destruct V4 as [V4|V4]; congruence|].
+    intros Hok. rewrite Eq in Hok. pose proof (hq_step_mono _ _ Hok) as Hok0. destruct (B10 Hok0) as [I1 I2 I3].
+    cbn [hq_step] in Eq, Hok. change (T_REQ =? T_STACK)%nat with false in *. change (T_REQ =? T_REQ)%nat with true in *.
+    cbn [nth0 nth] in Eq, Hok. cbv iota in Eq, Hok.
+    assert (TOP : match q_stack (HQ s) with (s0, _) :: _ => (s0 =? scr)%nat | [] => false end = true).
+    { unfold hqok in Hok. cbn [q_stale q_orphan q_modal set] in Hok. destruct (match q_stack (HQ s) with (s0, _) :: _ => (s0 =? scr)%nat | [] => false end); [reflexivity|].
+      cbn in Hok. rewrite orb_true_r in Hok. discriminate Hok. }
+    split; unfold stack_sm; rewrite Eq; cbn [q_stack q_pend set]; rewrite ?U1.
+    + exact I1.
+    + intros m A H. rewrite U3 in H. destruct (nth_error_snoc_cases _ _ _ _ H) as [X|[-> X]].
+      * right. apply I2, X.
+      * injection X as ->. left. unfold ihs. rewrite map_length. reflexivity.
+    + intros m A [X|X]; [|apply I3 in X; exact X]. injection X as _ <-.
+      destruct (q_stack (HQ s)) as [|[s0 b0] r]; [discriminate TOP|]. apply Nat.eqb_eq in TOP; subst s0.
+      exists [], b0, r. split; reflexivity.
+  - rewrite Eh. intros Hok. destruct (St Hok) as [S1 S2 S3 S4]. split; rewrite ?Eh, ?RL, ?FQ, ?V1, ?V2; auto.
+Qed.
+
 Lemma std_get_input s scr args : Inv s -> std n s (get_input specs scr args).
 Proof.
   intros HI. unfold get_input. sstep L; [sstep L|].
-  sstep L; [repeat sstep L|]. sstep L; [sstep L|].
-  apply std_new_input_handler; [|assumption]. intros m sx Ix. apply std_handler_get_input; assumption.
+  apply run_seq. apply run_rd. cbv beta. unfold ev. apply run_emit; [apply A_user_req|]. cbn [user_event].
+  apply run_seq. apply run_wr. unfold new_input_handler. apply run_rd. cbv beta zeta.
+  apply run_seq. apply run_wr. set (s3 := _ <| ust := _ |>).
+  destruct (Inv_req s s3 scr args) as [I3 R3]; try reflexivity; [|exact HI|].
+  { unfold s3, ihs. cbn [ust set st_ih emit upd_scr]. rewrite map_app. reflexivity. }
+  clearbody s3. eapply run_conseq; [|intros o s' P; eapply std_post_l; [exact R3|exact P]].
+  match goal with |- run ?m ?x ?p _ => change (std m x p) end.
+  repeat first [apply std_handler_get_input; assumption|sstep L].
 Qed.
 
 End Progs.
@@ -1269,16 +1072,19 @@ Proof.
   unfold plain_tag. intros H. apply negb_true_iff in H. apply orb_false_iff in H. destruct H as [H1 H2].
   cbn [chk_C05_shield_gen]. rewrite H1, H2. reflexivity.
 Qed.
-Lemma A_user_plain tag a t s : plain_tag tag = true -> (tag =? T_STACK)%nat = false -> A s -> A (emit (EUser tag a t) s).
+Lemma A_user_plain tag a t s : plain_tag tag = true -> (tag =? T_STACK)%nat = false -> (tag =? T_INPUT)%nat = false ->
+  A s -> A (emit (EUser tag a t) s).
 Proof.
-  intros H H2 HA. apply A_emit; [exact HA|apply chk_plain, H|intros _ _; apply chk_plain, H|apply chk_below_not_stack, H2].
+  intros H H2 H3 HA. apply A_emit; [exact HA|apply chk_plain, H|intros _ _; apply chk_plain, H|apply chk_below_not_stack, H2|].
+  intros _ _. apply chk_input_other, H3.
 Qed.
 Lemma A_user_stack a t s : chk_C05_below (SW s) (EUser T_STACK a t) = true -> A s -> A (emit (EUser T_STACK a t) s).
-Proof. intros H HA. apply A_emit; [exact HA|reflexivity|intros _ _; reflexivity|exact H]. Qed.
+Proof. intros H HA. apply A_emit; [exact HA|reflexivity|intros _ _; reflexivity|exact H|intros _ _; reflexivity]. Qed.
 
 Lemma run_ev_seq n s tag a q (Q : outcome -> st -> Prop) :
-  plain_tag tag = true -> (tag =? T_STACK)%nat = false -> run n (emit (EUser tag a []) s) q Q -> run n s (ev tag a ;; q) Q.
-Proof. intros H H2 R. apply run_seq. unfold ev. apply run_emit; [apply A_user_plain; assumption|exact R]. Qed.
+  plain_tag tag = true -> (tag =? T_STACK)%nat = false -> (tag =? T_INPUT)%nat = false ->
+  run n (emit (EUser tag a []) s) q Q -> run n s (ev tag a ;; q) Q.
+Proof. intros H H2 H3 R. apply run_seq. unfold ev. apply run_emit; [apply A_user_plain; assumption|exact R]. Qed.
 Lemma run_stack_seq n s a q (Q : outcome -> st -> Prop) :
   chk_C05_below (SW s) (EUser T_STACK a []) = true -> run n (emit (EUser T_STACK a []) s) q Q -> run n s (ev T_STACK a ;; q) Q.
 Proof. intros H R. apply run_seq. unfold ev. apply run_emit; [apply A_user_stack, H|exact R]. Qed.
@@ -1416,16 +1222,53 @@ Proof.
   - rewrite map_e_of_id. exact Nt.
 Qed.
 
+(* ---- the prompts' side of the stack primitives ---- *)
+Lemma hq_op h a t : hq_step h (EUser T_OP a t) = h.
+Proof. reflexivity. Qed.
+Lemma hq_append h d t : let h' := hq_step h (EUser T_STACK (sargs K_APPEND d) t) in
+  q_stack h' = (sd_scr d, sd_modal d) :: q_stack h /\ q_pend h' = q_pend h /\ q_stale h' = q_stale h /\
+  q_orphan h' = q_orphan h /\
+  q_modal h' = q_modal h || (sd_modal d && negb (match q_pend h with [] => true | _ => false end)).
+Proof. unfold sargs. cbn. rewrite b2n_eqb. repeat split. Qed.
+Lemma hq_addfirst h d t : let h' := hq_step h (EUser T_STACK (sargs K_ADD_FIRST d) t) in
+  q_stack h' = q_stack h ++ [(sd_scr d, false)] /\ q_pend h' = q_pend h /\ q_stale h' = q_stale h /\
+  q_orphan h' = q_orphan h /\ q_modal h' = q_modal h.
+Proof. cbn. repeat split. Qed.
+Lemma hq_pop h d t : let h' := hq_step h (EUser T_STACK (sargs K_POP d) t) in
+  q_stack h' = tl (q_stack h) /\ q_pend h' = q_pend h /\ q_stale h' = q_stale h /\
+  q_orphan h' = q_orphan h || pend_of (sd_scr d) (q_pend h) /\ q_modal h' = q_modal h.
+Proof. cbn. repeat split. Qed.
+
+Lemma clear_entry_push st A sc : clear_entry st A -> clear_entry ((sc, false) :: st) A.
+Proof. intros (ab & b & bl & -> & F). exists ((sc, false) :: ab), b, bl. split; [reflexivity|cbn; exact F]. Qed.
+Lemma clear_entry_app st A x : clear_entry st A -> clear_entry (st ++ x) A.
+Proof. intros (ab & b & bl & -> & F). exists ab, b, (bl ++ x). split; [rewrite <- app_assoc; reflexivity|exact F]. Qed.
+Lemma clear_entry_tl sc m st A : clear_entry ((sc, m) :: st) A -> A <> sc -> clear_entry st A /\ m = false.
+Proof.
+  intros (ab & b & bl & E & F) N. destruct ab as [|[s0 m0] ab]; cbn in E; injection E as E1 E2 E3; [congruence|].
+  cbn in F. apply andb_true_iff in F. destruct F as [F1 F2]. split; [exists ab, b, bl; auto|].
+  rewrite E2. destruct m0; [discriminate F1|reflexivity].
+Qed.
+Lemma pend_of_in n A l : In (n, A) l -> pend_of A l = true.
+Proof. intros H. unfold pend_of. apply existsb_exists. exists (n, A). split; [exact H|apply Nat.eqb_refl]. Qed.
+Lemma hqok_flags h : hqok h = true -> q_stale h = false /\ q_orphan h = false /\ q_modal h = false.
+Proof. unfold hqok. destruct (q_stale h), (q_orphan h), (q_modal h); cbn; auto; discriminate. Qed.
+Lemma in_map_e_of e l : In e (map e_of l) -> exists d, In d l /\ e = e_of d.
+Proof. intros H. apply in_map_iff in H. destruct H as (d & <- & Hd). eauto. Qed.
+
 (* ---- push / push_modal up to the append ---- *)
 Lemma Inv_push s s' k sc a m :
   (k = O_PUSH /\ m = false) \/ (k = O_PUSH_MODAL /\ m = true) ->
   let d := {| sd_id := st_next_sd (ust s); sd_scr := sc; sd_args := a; sd_modal := m |} in
   trace s' = EUser T_STACK (sargs K_APPEND d) [] :: EUser T_OP [k; sc; a] [] :: trace s ->
   st_stack (ust s') = d :: st_stack (ust s) -> st_next_sd (ust s') = S (st_next_sd (ust s)) ->
+  ihs (ust s') = ihs (ust s) ->
   run_loop s' = run_loop s -> force_quit s' = force_quit s -> Inv s ->
   InvG (negb m) s' /\ sw_modal (SW s') = (if m then [frame_of d] else []) ++ sw_modal (SW s) /\ HH s' = HH s.
 Proof.
-  intros HK d T U1 U2 RL FQ [[B1 B2 B3 B4 B5 B6 B7 B8] St].
+  intros HK d T U1 U2 U3 RL FQ [[B1 B2 B3 B4 B5 B6 B7 B8 B9 B10] St].
+  assert (Eq : HQ s' = hq_step (HQ s) (EUser T_STACK (sargs K_APPEND d) []))
+    by (unfold HQ; rewrite T, !Hqt_cons, hq_op; reflexivity).
   assert (Eh : HH s' = HH s) by (unfold HH; rewrite T, !Ht_cons_user; reflexivity).
   assert (EW : SW s' = user_step (user_step (SW s) T_OP [k; sc; a] []) T_STACK (sargs K_APPEND d) [])
     by (unfold SW; rewrite T, !SWt_cons; reflexivity).
@@ -1446,6 +1289,19 @@ Proof.
       * right. apply B6; assumption.
     + rewrite map_app. destruct m; cbn [map app]; [|exact B7]. constructor; [apply orig_fresh, B8|exact B7].
     + apply Forall_app. split; [destruct m; constructor; [cbn; lia|constructor]|apply Forall_orig_lt_S, B8].
+    + unfold frames_modal. rewrite EM, P1. intros f Hf C. apply in_app_or in Hf. destruct Hf as [Hf|Hf].
+      * destruct m; [|destruct Hf]. destruct Hf as [<-|[]]. exists (e_of d). split; [left; reflexivity|split; reflexivity].
+      * destruct (B9 f Hf C) as (e & He & E1 & E2). exists e. split; [right; exact He|auto].
+    + destruct (hq_append (HQ s) d []) as (G1 & G2 & G3 & G4 & G5). rewrite <- Eq in G1, G2, G3, G4, G5.
+      intros Hok. destruct (hqok_flags _ Hok) as (F1 & F2 & F3). rewrite G3 in F1. rewrite G4 in F2. rewrite G5 in F3.
+      apply orb_false_iff in F3. destruct F3 as [F3 F4].
+      assert (Hok0 : hqok (HQ s) = true) by (unfold hqok; rewrite F1, F2, F3; reflexivity).
+      destruct (B10 Hok0) as [I1 I2 I3]. split; unfold stack_sm; rewrite ?G1, ?G2, ?U1, ?U3.
+      * cbn [map]. rewrite I1. reflexivity.
+      * exact I2.
+      * intros n0 A HA. cbn [sd_modal d] in F4. destruct m.
+        -- destruct (q_pend (HQ s)); [destruct HA|discriminate F4].
+        -- apply clear_entry_push, (I3 n0), HA.
   - rewrite Eh. intros Hok. destruct (St Hok) as [S1 S2 S3 S4].
     split; rewrite ?Eh, ?RL, ?FQ, ?EW; auto.
     + rewrite EM, P1, mei_cons. cbn [e_of en_modal en_id sd_modal sd_id d]. destruct m; cbn [app]; [|exact S3].
@@ -1459,11 +1315,13 @@ Lemma Inv_replace s s' sc a top r :
   let d := {| sd_id := st_next_sd (ust s); sd_scr := sc; sd_args := a; sd_modal := sd_modal top |} in
   trace s' = EUser T_STACK (sargs K_APPEND d) [] :: EUser T_STACK (sargs K_POP top) [] ::
              EUser T_OP [O_REPLACE; sc; a] [] :: trace s ->
-  st_stack (ust s') = d :: r -> st_next_sd (ust s') = S (st_next_sd (ust s)) ->
+  st_stack (ust s') = d :: r -> st_next_sd (ust s') = S (st_next_sd (ust s)) -> ihs (ust s') = ihs (ust s) ->
   run_loop s' = run_loop s -> force_quit s' = force_quit s -> Inv s -> Inv s' /\ Rel true s s'.
 Proof.
-  intros U0 d T U1 U2 RL FQ [[B1 B2 B3 B4 B5 B6 B7 B8] St].
+  intros U0 d T U1 U2 U3 RL FQ [[B1 B2 B3 B4 B5 B6 B7 B8 B9 B10] St].
   assert (Eh : HH s' = HH s) by (unfold HH; rewrite T, !Ht_cons_user; reflexivity).
+  assert (Eq : HQ s' = hq_step (hq_step (HQ s) (EUser T_STACK (sargs K_POP top) [])) (EUser T_STACK (sargs K_APPEND d) []))
+    by (unfold HQ; rewrite T, !Hqt_cons, hq_op; reflexivity).
   assert (EW : SW s' = user_step (user_step (user_step (SW s) T_OP [O_REPLACE; sc; a] []) T_STACK (sargs K_POP top) [])
                                  T_STACK (sargs K_APPEND d) [])
     by (unfold SW; rewrite T, !SWt_cons; reflexivity).
@@ -1492,6 +1350,28 @@ Proof.
     + rewrite map_orig_rename. exact B7.
     + apply Forall_orig_lt_S. unfold rename_cur. apply (Forall_orig_map _ (fun o => o < st_next_sd (ust s))); [|exact B8].
       intros f. destruct (mf_cur f =? sd_id top)%nat; reflexivity.
+    + unfold frames_modal. rewrite P4, P1. intros f' Hf' C'. unfold rename_cur in Hf'. apply in_map_iff in Hf'.
+      destruct Hf' as (f & <- & Hf). cbv beta in *. destruct (mf_cur f =? sd_id top)%nat eqn:E.
+      * destruct (B9 f Hf C') as (e0 & He0 & E1 & E2). rewrite B1 in He0. apply Nat.eqb_eq in E.
+        exists (e_of d). split; [left; reflexivity|split; [reflexivity|]]. cbn [e_of en_modal d sd_modal].
+        destruct He0 as [<-|He0]; [exact E2|]. exfalso. apply Nt. apply in_map_e_of in He0. destruct He0 as (d0 & Hd0 & ->).
+        cbn [e_of en_id] in E1. rewrite <- E, <- E1. apply in_map, Hd0.
+      * destruct (B9 f Hf C') as (e0 & He0 & E1 & E2). rewrite B1 in He0. apply Nat.eqb_neq in E.
+        exists e0. split; [|auto]. destruct He0 as [<-|He0]; [cbn [e_of en_id] in E1; congruence|right; exact He0].
+    + set (h1 := hq_step (HQ s) (EUser T_STACK (sargs K_POP top) [])) in *.
+      destruct (hq_pop (HQ s) top []) as (K1 & K2 & K3 & K4 & K5). fold h1 in K1, K2, K3, K4, K5.
+      destruct (hq_append h1 d []) as (G1 & G2 & G3 & G4 & G5). rewrite <- Eq in G1, G2, G3, G4, G5.
+      intros Hok. destruct (hqok_flags _ Hok) as (F1 & F2 & F3). rewrite G3, K3 in F1. rewrite G4, K4 in F2. rewrite G5, K5 in F3.
+      apply orb_false_iff in F2. destruct F2 as [F2 F2']. apply orb_false_iff in F3. destruct F3 as [F3 F3'].
+      assert (Hok0 : hqok (HQ s) = true) by (unfold hqok; rewrite F1, F2, F3; reflexivity).
+      destruct (B10 Hok0) as [I1 I2 I3]. unfold stack_sm in I1. rewrite U0 in I1. cbn [map] in I1.
+      split; unfold stack_sm; rewrite ?G1, ?G2, ?K1, ?K2, ?I1, ?U1, ?U3.
+      * reflexivity.
+      * exact I2.
+      * intros n0 A HA. pose proof (I3 n0 A HA) as CE. rewrite I1 in CE.
+        assert (NA : A <> sd_scr top).
+        { intros ->. rewrite (pend_of_in _ _ _ HA) in F2'. discriminate F2'. }
+        destruct (clear_entry_tl _ _ _ _ CE NA) as [CE' M]. cbn [tl sd_scr sd_modal d]. rewrite M. apply clear_entry_push, CE'.
   - rewrite Eh. intros Hok. destruct (St Hok) as [S1 S2 S3 S4].
     split; rewrite ?Eh, ?RL, ?FQ, ?EW; fold w1 w2 w3; auto.
     + rewrite P4, P1. rewrite B1 in S3.
@@ -1504,11 +1384,13 @@ Qed.
 Lemma Inv_schedule s s' sc a :
   let d := {| sd_id := st_next_sd (ust s); sd_scr := sc; sd_args := a; sd_modal := false |} in
   trace s' = EUser T_STACK (sargs K_ADD_FIRST d) [] :: EUser T_OP [O_SCHEDULE; sc; a] [] :: trace s ->
-  st_stack (ust s') = st_stack (ust s) ++ [d] -> st_next_sd (ust s') = S (st_next_sd (ust s)) ->
+  st_stack (ust s') = st_stack (ust s) ++ [d] -> st_next_sd (ust s') = S (st_next_sd (ust s)) -> ihs (ust s') = ihs (ust s) ->
   run_loop s' = run_loop s -> force_quit s' = force_quit s -> Inv s -> Inv s' /\ Rel true s s'.
 Proof.
-  intros d T U1 U2 RL FQ [[B1 B2 B3 B4 B5 B6 B7 B8] St].
+  intros d T U1 U2 U3 RL FQ [[B1 B2 B3 B4 B5 B6 B7 B8 B9 B10] St].
   assert (Eh : HH s' = HH s) by (unfold HH; rewrite T, !Ht_cons_user; reflexivity).
+  assert (Eq : HQ s' = hq_step (HQ s) (EUser T_STACK (sargs K_ADD_FIRST d) []))
+    by (unfold HQ; rewrite T, !Hqt_cons, hq_op; reflexivity).
   assert (EW : SW s' = user_step (user_step (SW s) T_OP [O_SCHEDULE; sc; a] []) T_STACK (sargs K_ADD_FIRST d) [])
     by (unfold SW; rewrite T, !SWt_cons; reflexivity).
   unfold Rel. rewrite Eh, EW.
@@ -1523,6 +1405,15 @@ Proof.
     + rewrite map_app. cbn [map]. apply NoDup_app_snoc; [exact B5|apply fresh_not_in, B4].
     + intros f Hf C. rewrite map_app, in_app_iff. left. apply B6; assumption.
     + apply Forall_orig_lt_S, B8.
+    + unfold frames_modal. rewrite P4, P1. intros f Hf C. destruct (B9 f Hf C) as (e0 & He0 & E1 & E2).
+      exists e0. split; [apply in_or_app; left; exact He0|auto].
+    + destruct (hq_addfirst (HQ s) d []) as (G1 & G2 & G3 & G4 & G5). rewrite <- Eq in G1, G2, G3, G4, G5.
+      intros Hok. destruct (hqok_flags _ Hok) as (F1 & F2 & F3). rewrite G3 in F1. rewrite G4 in F2. rewrite G5 in F3.
+      assert (Hok0 : hqok (HQ s) = true) by (unfold hqok; rewrite F1, F2, F3; reflexivity).
+      destruct (B10 Hok0) as [I1 I2 I3]. split; unfold stack_sm; rewrite ?G1, ?G2, ?U1, ?U3.
+      * rewrite map_app, I1. reflexivity.
+      * exact I2.
+      * intros n0 A HA. apply clear_entry_app, (I3 n0), HA.
   - rewrite Eh. intros Hok. destruct (St Hok) as [S1 S2 S3 S4].
     split; rewrite ?Eh, ?RL, ?FQ, ?EW; fold w1 w2; rewrite ?P4, ?P1; auto. rewrite mei_app by reflexivity. exact S3.
 Qed.
@@ -1533,10 +1424,11 @@ Lemma Inv_pop_core s s' w1 top r :
   sw_stack w1 = sw_stack (SW s) -> sw_modal w1 = sw_modal (SW s) -> sw_replaced w1 = sw_replaced (SW s) ->
   (sw_expect w1 = [XPop true] \/ sw_expect w1 = []) ->
   SW s' = user_step w1 T_STACK (sargs K_POP top) [] -> HH s' = HH s ->
+  HQ s' = hq_step (HQ s) (EUser T_STACK (sargs K_POP top) []) -> ihs (ust s') = ihs (ust s) ->
   st_stack (ust s') = r -> st_next_sd (ust s') = st_next_sd (ust s) -> run_loop s' = run_loop s -> force_quit s' = force_quit s ->
   Inv s' /\ Rel true s s' /\ (sd_modal top = true -> h_ok (HH s') = true -> head_closed (sw_modal (SW s'))).
 Proof.
-  intros U0 [[B1 B2 B3 B4 B5 B6 B7 B8] St] V1 V2 V3 V4 EW Eh U1 U2 RL FQ.
+  intros U0 [[B1 B2 B3 B4 B5 B6 B7 B8 B9 B10] St] V1 V2 V3 V4 EW Eh Eq U3 U1 U2 RL FQ.
   destruct (us_pop w1 top []) as (Q1 & Q2). set (w2 := user_step w1 T_STACK (sargs K_POP top) []) in *.
   assert (Q : sw_expect w2 = [] /\ sw_replaced w2 = sw_replaced w1 /\ sw_modal w2 = close_cur (sd_id top) (sw_modal w1)).
   { destruct V4 as [V4|V4]; rewrite V4 in Q2; exact Q2. }
@@ -1554,6 +1446,22 @@ Proof.
       * rewrite map_orig_close. exact B7.
       * unfold close_cur. apply (Forall_orig_map _ (fun o => o < st_next_sd (ust s))); [|exact B8].
         intros f. destruct (mf_cur f =? sd_id top)%nat; reflexivity.
+      * unfold frames_modal. rewrite Q4, Q1. intros f' Hf' C'. unfold close_cur in Hf'. apply in_map_iff in Hf'.
+        destruct Hf' as (f & <- & Hf). cbv beta in *. destruct (mf_cur f =? sd_id top)%nat eqn:E; [discriminate C'|].
+        destruct (B9 f Hf C') as (e0 & He0 & E1 & E2). rewrite B1 in He0. apply Nat.eqb_neq in E.
+        exists e0. split; [|auto]. destruct He0 as [<-|He0]; [cbn [e_of en_id] in E1; congruence|exact He0].
+      * destruct (hq_pop (HQ s) top []) as (K1 & K2 & K3 & K4 & K5). rewrite <- Eq in K1, K2, K3, K4, K5.
+        intros Hok. destruct (hqok_flags _ Hok) as (F1 & F2 & F3). rewrite K3 in F1. rewrite K4 in F2. rewrite K5 in F3.
+        apply orb_false_iff in F2. destruct F2 as [F2 F2'].
+        assert (Hok0 : hqok (HQ s) = true) by (unfold hqok; rewrite F1, F2, F3; reflexivity).
+        destruct (B10 Hok0) as [I1 I2 I3]. unfold stack_sm in I1. rewrite U0 in I1. cbn [map] in I1.
+        split; unfold stack_sm; rewrite ?K1, ?K2, ?I1, ?U1, ?U3.
+        -- reflexivity.
+        -- exact I2.
+        -- intros n0 A HA. pose proof (I3 n0 A HA) as CE. rewrite I1 in CE.
+           assert (NA : A <> sd_scr top).
+           { intros ->. rewrite (pend_of_in _ _ _ HA) in F2'. discriminate F2'. }
+           apply (clear_entry_tl _ _ _ _ CE NA).
     + rewrite Eh. intros Hok. destruct (St Hok) as [S1 S2 S3 S4].
       split; rewrite ?Eh, ?RL, ?FQ, ?EW; auto.
       * rewrite Q4, Q1. rewrite B1 in S3.
@@ -1567,30 +1475,34 @@ Qed.
 Lemma Inv_close_pop s s' x top r :
   st_stack (ust s) = top :: r ->
   trace s' = EUser T_STACK (sargs K_POP top) [] :: EUser T_OP [O_CLOSE; x; 0] [] :: trace s ->
-  st_stack (ust s') = r -> st_next_sd (ust s') = st_next_sd (ust s) -> run_loop s' = run_loop s -> force_quit s' = force_quit s ->
+  st_stack (ust s') = r -> st_next_sd (ust s') = st_next_sd (ust s) -> ihs (ust s') = ihs (ust s) ->
+  run_loop s' = run_loop s -> force_quit s' = force_quit s ->
   Inv s ->
   Inv s' /\ Rel true s s' /\ (sd_modal top = true -> h_ok (HH s') = true -> head_closed (sw_modal (SW s'))).
 Proof.
-  intros U0 T U1 U2 RL FQ HI.
+  intros U0 T U1 U2 U3 RL FQ HI.
   destruct (us_op (SW s) O_CLOSE x 0 []) as (O1 & O2 & O3 & O4).
   apply (Inv_pop_core s s' (user_step (SW s) T_OP [O_CLOSE; x; 0] []) top r); auto.
   - left. rewrite O4. destruct HI as [[B1 _ _ _ _ _ _ _] _]. rewrite B1, U0. reflexivity.
   - unfold SW. rewrite T, !SWt_cons. reflexivity.
   - unfold HH. rewrite T, !Ht_cons_user. reflexivity.
+  - unfold HQ. rewrite T, !Hqt_cons, hq_op. reflexivity.
 Qed.
 
 Lemma Inv_fail_pop s s' top r :
   st_stack (ust s) = top :: r ->
   trace s' = EUser T_STACK (sargs K_POP top) [] :: trace s ->
-  st_stack (ust s') = r -> st_next_sd (ust s') = st_next_sd (ust s) -> run_loop s' = run_loop s -> force_quit s' = force_quit s ->
+  st_stack (ust s') = r -> st_next_sd (ust s') = st_next_sd (ust s) -> ihs (ust s') = ihs (ust s) ->
+  run_loop s' = run_loop s -> force_quit s' = force_quit s ->
   Inv s ->
   Inv s' /\ Rel true s s' /\ (sd_modal top = true -> h_ok (HH s') = true -> head_closed (sw_modal (SW s'))).
 Proof.
-  intros U0 T U1 U2 RL FQ HI.
+  intros U0 T U1 U2 U3 RL FQ HI.
   apply (Inv_pop_core s s' (SW s) top r); auto.
   - right. apply HI.
   - unfold SW. rewrite T, !SWt_cons. reflexivity.
   - unfold HH. rewrite T, !Ht_cons_user. reflexivity.
+  - unfold HQ. rewrite T, !Hqt_cons. reflexivity.
 Qed.
 
 (* ---- an operation on an empty stack only announces itself ---- *)
@@ -1598,18 +1510,19 @@ Lemma Keep_op_empty s k x y : st_stack (ust s) = [] -> (k = O_REPLACE \/ k = O_C
   Keep s (emit (EUser T_OP [k; x; y] []) s).
 Proof.
   intros U0 HK [[B1 B2 B3 B4 B5 B6 B7 B8] _]. destruct (us_op (SW s) k x y []) as (O1 & O2 & O3 & O4).
-  split; [| | |reflexivity|reflexivity|reflexivity|reflexivity].
+  split; [| | |reflexivity|reflexivity|reflexivity|reflexivity| |reflexivity].
   - rewrite SW_emit. cbn [sworld_step]. repeat split; auto. right. rewrite O4, B1, U0.
     destruct HK as [-> | ->]; reflexivity.
   - rewrite HH_emit. reflexivity.
   - apply A_user_plain; reflexivity.
+  - rewrite HQ_emit. reflexivity.
 Qed.
 
 (* ---- the return of a modal push ---- *)
 Lemma A_modal_return s5 id sc f' rest : A s5 -> sw_modal (SW s5) = f' :: rest -> mf_orig f' = id ->
   (h_ok (HH s5) = true -> mf_closed f' = true) -> A (emit (EUser T_MODAL_RETURN [id; sc] []) s5).
 Proof.
-  intros HA M O C. apply A_emit; [exact HA| | |reflexivity].
+  intros HA M O C. apply A_emit; [exact HA| | |reflexivity|intros _ _; reflexivity].
   - unfold chkP. cbn. rewrite M. cbn [find]. rewrite O, Nat.eqb_refl. apply orb_true_r.
   - intros Hok _. unfold chkS. cbn. rewrite M. cbn [find]. rewrite O, Nat.eqb_refl. rewrite (C Hok). reflexivity.
 Qed.
@@ -1620,8 +1533,9 @@ Lemma Inv_modal_return s5 s' id sc f' rest :
   (h_ok (HH s5) = true -> mf_closed f' = true) -> (force_quit s5 = false -> run_loop s5 = true) ->
   Inv s' /\ sw_modal (SW s') = rest /\ HH s' = HH s5.
 Proof.
-  intros T U RL FQ [[B1 B2 B3 B4 B5 B6 B7 B8] St] M O C RA.
+  intros T U RL FQ [[B1 B2 B3 B4 B5 B6 B7 B8 B9 B10] St] M O C RA.
   assert (Eh : HH s' = HH s5) by (unfold HH; rewrite T, !Ht_cons_user; reflexivity).
+  assert (Eq : HQ s' = HQ s5) by (unfold HQ; rewrite T, Hqt_cons; reflexivity).
   assert (EW : SW s' = user_step (SW s5) T_MODAL_RETURN [id; sc] []) by (unfold SW; rewrite T, !SWt_cons; reflexivity).
   destruct (us_modal_return (SW s5) id sc []) as (R1 & R2 & R3 & R4).
   rewrite M in R4. cbn [remove_first] in R4. rewrite O, Nat.eqb_refl in R4.
@@ -1631,6 +1545,8 @@ Proof.
     + intros f Hf Cf. apply B6; [right; exact Hf|exact Cf].
     + cbn [map] in B7. apply NoDup_cons_iff in B7. apply B7.
     + apply (Forall_inv_tail B8).
+    + unfold frames_modal in *. rewrite M in B9. rewrite R4, R1. intros f Hf Cf. apply B9; [right; exact Hf|exact Cf].
+    + rewrite Eq. intros Hok. destruct (B10 Hok) as [I1 I2 I3]. split; unfold stack_sm; rewrite ?Eq, ?U; auto.
   - rewrite Eh. intros Hok. destruct (St Hok) as [S1 S2 S3 S4].
     assert (RL5 : run_loop s5 = true) by auto.
     split; rewrite ?Eh, ?RL, ?FQ, ?EW, ?RL5; auto; try discriminate.
@@ -1658,11 +1574,13 @@ Proof.
       by (destruct HT as [->|[->| ->]]; reflexivity).
     rewrite N. rewrite (shielded_top (SW s) (e_of d) (map e_of r) (sd_id d)); [reflexivity| |reflexivity].
     rewrite B1, U0. reflexivity. }
-  split; [| | |reflexivity|reflexivity|reflexivity|reflexivity].
+  split; [| | |reflexivity|reflexivity|reflexivity|reflexivity| |reflexivity].
   - rewrite SW_emit. apply step_inert_vsame. destruct HT as [->|[->| ->]]; reflexivity.
   - rewrite HH_emit. reflexivity.
-  - intros HA. apply A_emit; [exact HA|apply C|intros _ _; apply C|].
-    apply chk_below_not_stack. destruct HT as [->|[->| ->]]; reflexivity.
+  - intros HA. apply A_emit; [exact HA|apply C|intros _ _; apply C| |].
+    + apply chk_below_not_stack. destruct HT as [->|[->| ->]]; reflexivity.
+    + intros _ _. apply chk_input_other. destruct HT as [->|[->| ->]]; reflexivity.
+  - rewrite HQ_emit. destruct HT as [->|[->| ->]]; reflexivity.
 Qed.
 
 Section scmd_ind2.
@@ -1715,11 +1633,11 @@ Variables self cnt : nat.
 
 Lemma std_push s sc a : Inv s -> std n s (do_scmd specs cn self cnt (SPush sc a)).
 Proof.
-  intros HI. cbn [do_scmd]. apply run_ev_seq; [reflexivity|reflexivity|]. unfold new_sd. apply run_rd. cbv beta zeta.
+  intros HI. cbn [do_scmd]. apply run_ev_seq; [reflexivity|reflexivity|reflexivity|]. unfold new_sd. apply run_rd. cbv beta zeta.
   apply run_wr_seq. apply run_wr_seq. unfold ev_stack.
   apply run_stack_seq; [apply (Below_push s _ O_PUSH sc a); [exact HI|reflexivity|reflexivity]|].
   set (s4 := emit _ _).
-  destruct (Inv_push s s4 O_PUSH sc a false (or_introl (conj eq_refl eq_refl)) eq_refl eq_refl eq_refl eq_refl eq_refl HI)
+  destruct (Inv_push s s4 O_PUSH sc a false (or_introl (conj eq_refl eq_refl)) eq_refl eq_refl eq_refl eq_refl eq_refl eq_refl HI)
     as (I4 & M4 & H4).
   assert (R4 : Rel true s s4) by (eapply Rel_of_modal_eq; [exact M4|reflexivity|exact H4]).
   clearbody s4. eapply run_conseq; [apply (std_sched_redraw n L), I4|]. intros o s' P. eapply std_post_l; eauto.
@@ -1727,11 +1645,11 @@ Qed.
 
 Lemma std_push_modal s sc a : Inv s -> std n s (do_scmd specs cn self cnt (SPushModal sc a)).
 Proof.
-  intros HI. cbn [do_scmd]. apply run_ev_seq; [reflexivity|reflexivity|]. unfold new_sd. apply run_rd. cbv beta zeta.
+  intros HI. cbn [do_scmd]. apply run_ev_seq; [reflexivity|reflexivity|reflexivity|]. unfold new_sd. apply run_rd. cbv beta zeta.
   apply run_wr_seq. apply run_wr_seq. unfold ev_stack.
   apply run_stack_seq; [apply (Below_push s _ O_PUSH_MODAL sc a); [exact HI|reflexivity|reflexivity]|].
   set (s4 := emit _ _).
-  destruct (Inv_push s s4 O_PUSH_MODAL sc a true (or_intror (conj eq_refl eq_refl)) eq_refl eq_refl eq_refl eq_refl eq_refl HI)
+  destruct (Inv_push s s4 O_PUSH_MODAL sc a true (or_intror (conj eq_refl eq_refl)) eq_refl eq_refl eq_refl eq_refl eq_refl eq_refl HI)
     as (I4 & M4 & H4).
   set (d := {| sd_id := st_next_sd (ust s); sd_scr := sc; sd_args := a; sd_modal := true |}) in *.
   assert (R4 : Rel false s s4) by (eapply Rel_of_modal_eq; [exact M4|discriminate|exact H4]).
@@ -1760,7 +1678,7 @@ Qed.
 
 Lemma std_replace s sc a : Inv s -> std n s (do_scmd specs cn self cnt (SReplace sc a)).
 Proof.
-  intros HI. cbn [do_scmd]. apply run_ev_seq; [reflexivity|reflexivity|]. apply run_rd. cbv beta. rewrite ust_emit.
+  intros HI. cbn [do_scmd]. apply run_ev_seq; [reflexivity|reflexivity|reflexivity|]. apply run_rd. cbv beta. rewrite ust_emit.
   destruct (st_stack (ust s)) as [|top r] eqn:U0.
   - apply run_throw. pose proof (Keep_op_empty s O_REPLACE sc a U0 (or_introl eq_refl) HI) as K.
     split; [eapply Keep_inv; eauto|apply Keep_rel, K].
@@ -1770,17 +1688,17 @@ Proof.
     apply run_wr_seq. apply run_wr_seq.
     apply run_stack_seq; [apply (Below_replace_append s _ sc a top r); [exact HI|exact U0|reflexivity|reflexivity]|].
     set (s4 := emit _ _).
-    destruct (Inv_replace s s4 sc a top r U0 eq_refl eq_refl eq_refl eq_refl eq_refl HI) as (I4 & R4).
+    destruct (Inv_replace s s4 sc a top r U0 eq_refl eq_refl eq_refl eq_refl eq_refl eq_refl HI) as (I4 & R4).
     clearbody s4. eapply run_conseq; [apply (std_sched_redraw n L), I4|]. intros o s' P. eapply std_post_l; eauto.
 Qed.
 
 Lemma std_schedule s sc a : Inv s -> std n s (do_scmd specs cn self cnt (SSchedule sc a)).
 Proof.
-  intros HI. cbn [do_scmd]. apply run_ev_seq; [reflexivity|reflexivity|]. unfold new_sd. apply run_rd. cbv beta zeta.
+  intros HI. cbn [do_scmd]. apply run_ev_seq; [reflexivity|reflexivity|reflexivity|]. unfold new_sd. apply run_rd. cbv beta zeta.
   apply run_wr_seq. apply run_wr_seq. unfold ev_stack.
   apply run_stack_seq; [apply (Below_schedule s _ sc a); [exact HI|reflexivity]|].
   set (s4 := emit _ _).
-  destruct (Inv_schedule s s4 sc a eq_refl eq_refl eq_refl eq_refl eq_refl HI) as (I4 & R4).
+  destruct (Inv_schedule s s4 sc a eq_refl eq_refl eq_refl eq_refl eq_refl eq_refl HI) as (I4 & R4).
   clearbody s4. eapply run_conseq; [|intros o s' P; eapply std_post_l; [exact R4|exact P]].
   match goal with |- run ?m ?x ?p (Post ?x) => change (std m x p) end.
   repeat first [apply (std_sched_redraw n L); assumption|sstep L].
@@ -1860,7 +1778,7 @@ Proof. intros [Rw Mono] HC M Hok. apply (Relw_head_closed _ _ Rw). apply HC; aut
 
 Lemma std_close_screen s cf : Inv s -> std n s (close_screen specs cf).
 Proof.
-  intros HI. unfold close_screen. apply run_ev_seq; [reflexivity|reflexivity|]. apply run_rd. cbv beta. rewrite ust_emit.
+  intros HI. unfold close_screen. apply run_ev_seq; [reflexivity|reflexivity|reflexivity|]. apply run_rd. cbv beta. rewrite ust_emit.
   destruct (st_stack (ust s)) as [|top r] eqn:U0.
   - apply run_throw.
     pose proof (Keep_op_empty s O_CLOSE (match cf with Some c => S c | None => 0 end) 0 U0 (or_intror eq_refl) HI) as K.
@@ -1868,7 +1786,7 @@ Proof.
   - apply run_wr_seq. unfold ev_stack.
     apply run_stack_seq; [apply (Below_op_pop s _ O_CLOSE (match cf with Some c => S c | None => 0 end) 0 top r); [exact HI|exact U0|reflexivity]|].
     set (s3 := emit _ _).
-    destruct (Inv_close_pop s s3 (match cf with Some c => S c | None => 0 end) top r U0 eq_refl eq_refl eq_refl eq_refl eq_refl HI)
+    destruct (Inv_close_pop s s3 (match cf with Some c => S c | None => 0 end) top r U0 eq_refl eq_refl eq_refl eq_refl eq_refl eq_refl HI)
       as (I3 & R3 & HC3).
     clearbody s3.
     apply (run_seq_std' s s3); [exact R3|apply std_call_closed, I3|]. intros s4 I4 R4.
@@ -1960,28 +1878,210 @@ Proof.
                | apply (std_push_modal n L); assumption | sstep L].
 Qed.
 
-Lemma std_call_input s scr key : Inv s -> std n s (call_input specs scr key).
+(* ---- input() is given to a screen that has an entry with no modal entry above it ---- *)
+Lemma pos_of_app_notin id l1 l2 : forall i, ~ In id (map en_id l1) -> pos_of id (l1 ++ l2) i = pos_of id l2 (i + length l1).
 Proof.
-  intros HI. unfold call_input. apply std_rd. cbv beta zeta.
+  induction l1 as [|e r IH]; intros i N; cbn [app pos_of length]; [rewrite Nat.add_0_r; reflexivity|].
+  cbn [map] in N. destruct (en_id e =? id)%nat eqn:E; [apply Nat.eqb_eq in E; exfalso; apply N; left; exact E|].
+  rewrite IH by (intros H; apply N; right; exact H). f_equal. lia.
+Qed.
+Lemma pos_of_lt_in id l1 l2 : forall i p, pos_of id (l1 ++ l2) i = Some p -> p < i + length l1 -> In id (map en_id l1).
+Proof.
+  induction l1 as [|e r IH]; intros i p H Hp; cbn [app pos_of length map] in *.
+  - exfalso. revert i p H Hp. induction l2 as [|e r IH]; intros i p H Hp; cbn [pos_of] in H; [discriminate|].
+    destruct (en_id e =? id)%nat; [injection H as <-; lia|]. apply (IH (S i) p H). lia.
+  - destruct (en_id e =? id)%nat eqn:E; [left; apply Nat.eqb_eq, E|]. right. apply (IH (S i) p H). lia.
+Qed.
+Lemma stack_sm_split u above A b below : stack_sm u = above ++ (A, b) :: below ->
+  exists da x db, st_stack u = da ++ x :: db /\ map (fun d => (sd_scr d, sd_modal d)) da = above /\ sd_scr x = A.
+Proof.
+  unfold stack_sm. intros H. apply map_eq_app in H. destruct H as (da & r & E & E1 & E2).
+  apply map_eq_cons in E2. destruct E2 as (x & db & E3 & E4 & E5). injection E4 as E4 _.
+  exists da, x, db. subst r. auto.
+Qed.
+
+Lemma nodup_id_inj (l : list sdata) a b : NoDup (map sd_id l) -> In a l -> In b l -> sd_id a = sd_id b -> a = b.
+Proof.
+  induction l as [|y r IH]; intros N Ha Hb E; [destruct Ha|]. cbn [map] in N. apply NoDup_cons_iff in N. destruct N as [N1 N2].
+  destruct Ha as [->|Ha], Hb as [->|Hb]; auto.
+  - exfalso. apply N1. rewrite E. apply in_map, Hb.
+  - exfalso. apply N1. rewrite <- E. apply in_map, Ha.
+Qed.
+Lemma visible_of_clear s A : Inv s -> hqok (HQ s) = true -> clear_entry (q_stack (HQ s)) A -> scr_visible (SW s) A = true.
+Proof.
+  intros [[B1 B2 B3 B4 B5 B6 B7 B8 B9 B10] _] Hok (above & b & below & E & F).
+  destruct (B10 Hok) as [I1 _ _]. rewrite I1 in E.
+  destruct (stack_sm_split _ _ _ _ _ E) as (da & x & db & U0 & Ea & Ex).
+  unfold scr_visible. apply orb_true_iff. left. apply existsb_exists. exists (e_of x). rewrite B1, U0. split.
+  { apply in_map, in_or_app. right. left. reflexivity. }
+  cbn [e_of en_scr en_id]. rewrite Ex, Nat.eqb_refl. cbn [andb]. apply negb_true_iff.
+  unfold shielded. rewrite B1, U0, map_app. cbn [map].
+  pose proof B5 as B5o. rewrite U0, map_app in B5. cbn [map] in B5.
+  assert (Nx : ~ In (sd_id x) (map sd_id da)).
+  { apply NoDup_remove_2 in B5. intros H. apply B5, in_or_app. left. exact H. }
+  assert (Px : pos_of (sd_id x) (map e_of da ++ e_of x :: map e_of db) 0 = Some (length da)).
+  { rewrite pos_of_app_notin by (rewrite map_e_of_id; exact Nx). cbn [pos_of e_of en_id]. rewrite Nat.eqb_refl, map_length. reflexivity. }
+  rewrite Px. apply not_true_iff_false. intros H. apply existsb_exists in H. destruct H as (f & Hf & Hc).
+  apply andb_true_iff in Hc. destruct Hc as [Hc Hp]. apply negb_true_iff in Hc.
+  destruct (pos_of (mf_cur f) (map e_of da ++ e_of x :: map e_of db) 0) as [pf|] eqn:Pf; [|discriminate Hp].
+  apply Nat.ltb_lt in Hp.
+  assert (Hin : In (mf_cur f) (map en_id (map e_of da))).
+  { eapply pos_of_lt_in; [exact Pf|]. rewrite map_length. lia. }
+  rewrite map_e_of_id in Hin. apply in_map_iff in Hin. destruct Hin as (d' & Ed' & Hd').
+  destruct (B9 f Hf Hc) as (e0 & He0 & E1 & E2). rewrite B1, U0 in He0. apply in_map_e_of in He0.
+  destruct He0 as (d0 & Hd0 & ->). cbn [e_of en_id en_modal] in E1, E2.
+  assert (d0 = d').
+  { apply (nodup_id_inj (st_stack (ust s))); [exact B5o|rewrite U0; exact Hd0|rewrite U0; apply in_or_app; left; exact Hd'|congruence]. }
+  subst d0. rewrite <- Ea in F. rewrite forallb_forall in F.
+  specialize (F (sd_scr d', sd_modal d') (in_map _ _ _ Hd')). cbn [snd] in F. rewrite E2 in F. discriminate F.
+Qed.
+
+Definition CE s (scr : nat) : Prop := hqok (HQ s) = true -> clear_entry (q_stack (HQ s)) scr.
+Lemma CE_keep s s' scr : Keep s s' -> CE s scr -> CE s' scr.
+Proof. intros K C. unfold CE. rewrite (k_hq _ _ K). exact C. Qed.
+
+Lemma Keep_input s scr a t : Inv s -> CE s scr -> nth0 a 0 = scr -> Keep s (emit (EUser T_INPUT a t) s).
+Proof.
+  intros HI C N. split; [| | |reflexivity|reflexivity|reflexivity|reflexivity| |reflexivity].
+  - rewrite SW_emit. apply step_inert_vsame. reflexivity.
+  - rewrite HH_emit. reflexivity.
+  - intros HA. apply A_emit; [exact HA|reflexivity|intros _ _; reflexivity|reflexivity|].
+    intros Hok _. cbn [chk_C05_input]. rewrite Nat.eqb_refl, N. apply visible_of_clear; auto.
+  - rewrite HQ_emit. reflexivity.
+Qed.
+
+Lemma std_call_input s scr key : Inv s -> CE s scr -> std n s (call_input specs scr key).
+Proof.
+  intros HI C. unfold call_input. apply std_rd. cbv beta zeta.
   destruct (match assoc_str key (sc_input (specs scr)) with
             | Some (c, r) => (c, r)
             | None => (fst (sc_input_default (specs scr)),
                        match snd (sc_input_default (specs scr)) with Some r => r | None => RKey key end)
             end) as [cmds rv].
+  apply run_seq. apply run_wr. set (s1 := s <| ust := _ |>).
+  assert (K1 : Keep s s1) by (apply Keep_wr; reflexivity).
+  pose proof (Keep_input s1 scr [scr; ss_input_args (scr_of (ust s) scr)] key (Keep_inv _ _ _ K1 HI) (CE_keep _ _ _ K1 C) eq_refl) as K2.
+  apply run_seq. unfold evt. apply run_emit; [exact (k_A _ _ K2)|]. cbn [user_event].
+  set (s2 := emit _ s1) in *. assert (K02 : Keep s s2) by (eapply Keep_trans; eauto). clearbody s2. clear K2 K1. clearbody s1.
+  eapply run_conseq; [|intros o s' P; eapply std_post_l; [apply Keep_rel, K02|exact P]].
+  pose proof (Keep_inv _ _ _ K02 HI) as I2.
+  match goal with |- run ?m ?x ?p _ => change (std m x p) end.
   repeat first [apply std_run_cmds; assumption|sstep L].
 Qed.
 
-Lemma std_process_input s scr line : Inv s -> std n s (process_input specs scr line).
+Lemma std_process_input s scr line : Inv s -> CE s scr -> std n s (process_input specs scr line).
 Proof.
-  intros HI. unfold process_input.
-  repeat first [apply std_call_input; assumption|apply (std_raise n L); assumption
-               |apply std_process_input_result; assumption|sstep L].
+  intros HI C. unfold process_input.
+  apply run_seq. apply run_wr. set (s1 := s <| ust := _ |>).
+  assert (K1 : Keep s s1) by (apply Keep_wr; reflexivity).
+  pose proof (Keep_inv _ _ _ K1 HI) as I1. pose proof (CE_keep _ _ _ K1 C) as C1. clearbody s1.
+  eapply run_conseq; [|intros o s' P; eapply std_post_l; [apply Keep_rel, K1|exact P]].
+  match goal with |- run ?m ?x ?p _ => change (std m x p) end.
+  sstep L.
+  - apply std_try; [|intros s2 I2; repeat first [apply (std_raise n L); assumption|sstep L]].
+    sstep L; [apply std_call_input; assumption|sstep L].
+  - repeat first [apply std_process_input_result; assumption|sstep L].
+Qed.
+
+Lemma ihs_nth u m A c : nth_error (ihs u) m = Some (A, c) -> ih_owner (ih_of u m) = A /\ ih_cb (ih_of u m) = c.
+Proof.
+  unfold ihs, ih_of. intros H. rewrite nth_error_map in H. destruct (nth_error (st_ih u) m) as [h|] eqn:E; [|discriminate].
+  injection H as <- <-. rewrite (nth_error_nth _ _ _ E). auto.
+Qed.
+Lemma ihs_nth_cb u m : ih_cb (ih_of u m) = true -> nth_error (ihs u) m = Some (ih_owner (ih_of u m), true).
+Proof.
+  unfold ihs, ih_of. intros H. rewrite nth_error_map. destruct (nth_error (st_ih u) m) as [h|] eqn:E.
+  - rewrite (nth_error_nth _ _ _ E) in *. cbn. rewrite H. reflexivity.
+  - rewrite (nth_overflow _ _ (proj1 (nth_error_None _ _) E)) in H. discriminate H.
+Qed.
+Lemma In_pend_remove m k A l : k <> m -> In (k, A) l -> In (k, A) (pend_remove m l).
+Proof. intros N H. unfold pend_remove. apply filter_In. split; [exact H|]. cbn. apply negb_true_iff, Nat.eqb_neq, N. Qed.
+Lemma In_pend_remove_inv m k A l : In (k, A) (pend_remove m l) -> In (k, A) l.
+Proof. unfold pend_remove. intros H. apply filter_In in H. apply H. Qed.
+
+(* the ready signal reaches its handler *)
+Lemma Keep_ready0 s m t : Keep s (emit (EUser T_READY [m; 0] t) s).
+Proof.
+  split; [| | |reflexivity|reflexivity|reflexivity|reflexivity| |reflexivity].
+  - rewrite SW_emit. apply step_inert_vsame. reflexivity.
+  - rewrite HH_emit. reflexivity.
+  - apply A_user_plain; reflexivity.
+  - rewrite HQ_emit. reflexivity.
+Qed.
+Lemma Inv_ready1 s s' m t :
+  trace s' = EUser T_READY [m; 1] t :: trace s -> st_stack (ust s') = st_stack (ust s) ->
+  st_next_sd (ust s') = st_next_sd (ust s) -> run_loop s' = run_loop s -> force_quit s' = force_quit s ->
+  (forall k A, nth_error (ihs (ust s')) k = Some (A, true) -> k <> m /\ nth_error (ihs (ust s)) k = Some (A, true)) ->
+  Inv s -> Inv s' /\ Rel true s s' /\ (ih_cb (ih_of (ust s) m) = true -> CE s' (ih_owner (ih_of (ust s) m))).
+Proof.
+  intros T U1 U2 RL FQ W [[B1 B2 B3 B4 B5 B6 B7 B8 B9 B10] St].
+  assert (V : vsame (SW s) (SW s')) by (rewrite (SW_cons' _ _ _ T); apply step_inert_vsame; reflexivity).
+  assert (Eh : HH s' = HH s) by (apply (HH_cons_u _ _ _ _ _ T)).
+  pose proof (HQ_cons _ _ _ T) as Eq. destruct V as (V1 & V2 & V3 & V4).
+  assert (G : q_stack (HQ s') = q_stack (HQ s) /\ q_pend (HQ s') = pend_remove m (q_pend (HQ s)) /\
+              (hqok (HQ s') = true -> hqok (HQ s) = true)).
+  { rewrite Eq. split; [reflexivity|split; [reflexivity|apply hq_step_mono]]. }
+  destruct G as (G1 & G2 & G3).
+  split; [|split; [split; [apply Relw_modal; rewrite V2; apply frames_le_refl|rewrite Eh; auto]|]].
+  - split.
+    + split; unfold frames_on, frames_modal; rewrite ?U1, ?U2, ?V1, ?V2, ?V3; auto; [destruct V4 as [V4|V4]; congruence|].
+      intros Hok. destruct (B10 (G3 Hok)) as [I1 I2 I3]. split; unfold stack_sm; rewrite ?G1, ?G2, ?U1.
+      * exact I1.
+      * intros k A H. destruct (W k A H) as [Nk H']. apply In_pend_remove; [exact Nk|apply I2, H'].
+      * intros k A H. apply (I3 k), (In_pend_remove_inv _ _ _ _ H).
+    + rewrite Eh. intros Hok. destruct (St Hok) as [S1 S2 S3 S4]. split; rewrite ?Eh, ?RL, ?FQ, ?V1, ?V2; auto.
+  - intros Cb Hok. destruct (B10 (G3 Hok)) as [I1 I2 I3]. rewrite G1. apply (I3 m), I2, ihs_nth_cb, Cb.
 Qed.
 
 Lemma std_input_ready_handler s m sg : Inv s -> std n s (input_ready_handler specs m sg).
 Proof.
-  intros HI. unfold input_ready_handler.
-  repeat first [apply std_process_input; assumption|sstep L].
+  intros HI. unfold input_ready_handler. destruct (negb (sg_a sg =? m)%nat); [sstep L|].
+  apply run_seq. apply run_wr. set (s1 := s <| ust := _ |>).
+  assert (K1 : Keep s s1) by (apply Keep_wr; try reflexivity; apply ihs_upd_ih; intros; split; reflexivity).
+  assert (E1 : ihs (ust s1) = ihs (ust s)) by apply (k_ih _ _ K1).
+  assert (O1 : ih_owner (ih_of (ust s1) m) = ih_owner (ih_of (ust s) m) /\ ih_cb (ih_of (ust s1) m) = ih_cb (ih_of (ust s) m)).
+  { destruct (ih_cb (ih_of (ust s1) m)) eqn:C1.
+    - pose proof (ihs_nth_cb _ _ C1) as H. rewrite E1 in H. destruct (ihs_nth _ _ _ _ H). auto.
+    - destruct (ih_cb (ih_of (ust s) m)) eqn:C0; [|split; [|reflexivity]].
+      + pose proof (ihs_nth_cb _ _ C0) as H. rewrite <- E1 in H. destruct (ihs_nth _ _ _ _ H). congruence.
+      + unfold s1, ih_of, upd_ih. cbn [ust set st_ih]. clear. generalize (st_ih (ust s)) m.
+        induction l as [|h r IH]; intros [|k]; cbn; auto. }
+  pose proof (Keep_inv _ _ _ K1 HI) as I1. clearbody s1.
+  destruct (sg_b sg) eqn:OK; cbn [b2n negb].
+  - (* success *)
+    apply run_seq. unfold evt. apply run_emit; [apply A_user_plain; reflexivity|]. cbn [user_event].
+    apply run_seq. apply run_wr. set (s3 := _ <| ust := _ |>).
+    assert (E3 : ihs (ust s3) = ihs (ust s1)) by (unfold s3; cbn [ust set emit]; apply ihs_upd_ih; intros; split; reflexivity).
+    apply run_rd. cbv beta.
+    assert (C3 : ih_cb (ih_of (ust s3) m) = ih_cb (ih_of (ust s1) m) /\ ih_owner (ih_of (ust s3) m) = ih_owner (ih_of (ust s1) m)).
+    { destruct (ih_cb (ih_of (ust s3) m)) eqn:C.
+      - pose proof (ihs_nth_cb _ _ C) as H. rewrite E3 in H. destruct (ihs_nth _ _ _ _ H). auto.
+      - destruct (ih_cb (ih_of (ust s1) m)) eqn:C0.
+        + pose proof (ihs_nth_cb _ _ C0) as H. rewrite <- E3 in H. destruct (ihs_nth _ _ _ _ H). congruence.
+        + split; [reflexivity|]. unfold s3, ih_of, upd_ih. cbn [ust set st_ih emit]. clear. generalize (st_ih (ust s1)) m.
+          induction l as [|h r IH]; intros [|k]; cbn; auto. }
+    destruct C3 as [C3 C3o]. destruct (ih_cb (ih_of (ust s3) m)) eqn:CB.
+    + (* the callback: input() of the owner *)
+      apply run_seq. apply run_wr. set (s4 := s3 <| ust := _ |>).
+      destruct (Inv_ready1 s1 s4 m (sg_data sg)) as (I4 & R4 & C4); try reflexivity; [|exact I1|].
+      { intros k A H. destruct (Nat.eq_dec k m) as [->|Nk].
+        - exfalso. unfold s4, ihs, upd_ih in H. cbn [ust set st_ih] in H. rewrite nth_error_map in H.
+          revert H. clear. generalize (st_ih (ust s3)) m.
+          induction l as [|h r IH]; intros [|k]; cbn; try discriminate; auto. apply IH.
+        - split; [exact Nk|]. rewrite <- E3. revert H. unfold s4, ihs, upd_ih. cbn [ust set st_ih].
+          generalize (st_ih (ust s3)) k m Nk. clear.
+          induction l as [|h r IH]; intros [|k] [|m] Nk; cbn; auto; [congruence|]. apply IH. congruence. }
+      assert (CE4 : CE s4 (ih_owner (ih_of (ust s3) m))) by (rewrite C3o; apply C4; rewrite <- C3; reflexivity).
+      clearbody s4. eapply run_conseq; [apply std_process_input; assumption|].
+      intros o s' P. eapply std_post_l; [|exact P]. eapply Rel_trans_l; [apply Keep_rel, K1|exact R4].
+    + apply run_ret.
+      destruct (Inv_ready1 s1 s3 m (sg_data sg)) as (I3 & R3 & _); try reflexivity; [|exact I1|].
+      { intros k A H. rewrite E3 in H. split; [|exact H]. intros ->. destruct (ihs_nth _ _ _ _ H) as [_ X]. congruence. }
+      split; [exact I3|]. eapply Rel_trans_l; [apply Keep_rel, K1|exact R3].
+  - (* failure *)
+    pose proof (Keep_ready0 s1 m (sg_data sg)) as K2.
+    apply run_seq. unfold evt. apply run_emit; [exact (k_A _ _ K2)|]. cbn [user_event]. apply run_ret.
+    apply std_keep; [eapply Keep_trans; eauto|exact HI].
 Qed.
 
 Lemma std_process_screen s : Inv s -> std n s (process_screen specs).
@@ -2002,7 +2102,7 @@ Proof.
     apply run_seq. apply run_rd. cbv beta. rewrite U1. apply run_wr_seq. unfold ev_stack.
     apply run_stack_last; [apply (Below_fail_pop s1 _ top r); [exact I1|exact U1|reflexivity]|].
     set (s3 := emit _ _).
-    destruct (Inv_fail_pop s1 s3 top r U1 eq_refl eq_refl eq_refl eq_refl eq_refl I1) as (I3 & R3 & HC3).
+    destruct (Inv_fail_pop s1 s3 top r U1 eq_refl eq_refl eq_refl eq_refl eq_refl eq_refl I1) as (I3 & R3 & HC3).
     clearbody s3. apply (run_std_post s s3); [eapply Rel_trans_l; eauto|].
     destruct (sd_modal top) eqn:M.
     + apply (std_close_loop_if s3 true I3). intros _. apply HC3. reflexivity.
@@ -2034,12 +2134,15 @@ Theorem loop_ok : forall n, LoopOK n.
 Proof. induction n as [|n IH]; [apply LoopOK_0|]. apply loop_step; [exact IH|apply handlers_ok, IH]. Qed.
 
 (* ================================================================ whole sessions *)
-Lemma Inv_init u : st_stack u = [] -> Inv (init_state u) /\ A (init_state u).
+Lemma Inv_init u : st_stack u = [] -> st_ih u = [] -> Inv (init_state u) /\ A (init_state u).
 Proof.
-  intros U. split; [split|].
-  - split; cbn; rewrite ?U; auto; try constructor. intros f [].
+  intros U Ui. split; [split|].
+  - split; cbn; rewrite ?U; auto; try constructor; try (intros f []; fail).
+    + cbn. unfold stack_sm. cbn. rewrite U. reflexivity.
+    + unfold ihs. cbn. rewrite Ui. intros [|k] A0; discriminate.
+    + cbn. intros k A0 [].
   - intros _. split; cbn; auto; discriminate.
-  - split; [reflexivity|split; [intros _; reflexivity|reflexivity]].
+  - split; [reflexivity|split; [intros _; reflexivity|split; [reflexivity|intros _; reflexivity]]].
 Qed.
 
 Lemma Keep_top s : Keep s (emit ETop s).
@@ -2080,7 +2183,7 @@ Lemma app_run_all_ok specl typed' quit run_empty fuel acts :
   A (snd (app_run_all specs specl typed' quit run_empty fuel acts)).
 Proof.
   unfold app_run_all. set (u := sstate0 specl typed' quit run_empty).
-  destruct (Inv_init u eq_refl) as [I0 A0].
+  destruct (Inv_init u eq_refl eq_refl) as [I0 A0].
   destruct (exec code 20 (CProg app_initialize) (init_state u)) as [o s1] eqn:E.
   destruct (std_app_initialize 20 (init_state u) I0 A0 20 o s1 (le_n _) E) as [A1 P1].
   assert (NF : o <> OFuel).
@@ -2091,194 +2194,69 @@ Qed.
 End Screen.
 
 (* ================================================================ the theorems *)
-(* every session: the shield clauses (setup/refresh/show never beneath an open modal frame) and the
-   matching of returns to frames hold; under the trace hypothesis [no_f13] every return finds its
-   frame closed *)
-Theorem C05_shield_session specs specl typed quit run_empty fuel acts :
+Theorem C05_input_session specs specl typed quit run_empty fuel acts :
   let t := rev (trace (snd (app_run_all specs specl typed quit run_empty fuel acts))) in
   sok chk_C05_shield_partial typed t = true /\ (no_f13 t = true -> sok chk_C05_shield typed t = true) /\
-  sok chk_C05_below typed t = true.
+  sok chk_C05_below typed t = true /\
+  (no_stale_prompt t = true -> no_orphan_prompt t = true -> no_modal_during_prompt t = true ->
+   sok chk_C05_input typed t = true).
 Proof.
-  intros t. destruct (app_run_all_ok specs typed specl typed quit run_empty fuel acts) as (A1 & A2 & A3).
-  split; [apply sok_iff; exact A1|]. split; [|apply sok_iff; exact A3]. intros H. apply sok_iff. apply A2. exact H.
+  intros t. destruct (app_run_all_ok specs typed specl typed quit run_empty fuel acts) as (A1 & A2 & A3 & A4).
+  split; [apply sok_iff; exact A1|]. split; [intros H; apply sok_iff, A2, H|]. split; [apply sok_iff; exact A3|].
+  intros H1 H2 H3. apply sok_iff, A4. unfold Hqt. fold t. rewrite hqok_split, H1, H2, H3. reflexivity.
 Qed.
 
-(* events other than the stack primitives leave the stack and every frame's current entry alone: the
-   announcement of an operation changes nothing of them, the return of a modal push only removes its frame *)
-Lemma step_not_stack w e :
-  match e with EUser tag _ _ => tag <> T_STACK | _ => True end ->
-  sw_stack (sworld_step w e) = sw_stack w /\ sw_replaced (sworld_step w e) = sw_replaced w /\
-  (sw_modal (sworld_step w e) = sw_modal w \/
-   exists id, sw_modal (sworld_step w e) = remove_first (fun f => (mf_orig f =? id)%nat) (sw_modal w)).
-Proof.
-  intros H. destruct e;
-    try (match goal with |- context [sworld_step w ?e] => destruct (step_loop_vsame w e eq_refl) as (V1 & V2 & V3 & _) end; auto; fail).
-  cbn [sworld_step]. destruct (tag =? T_OP)%nat eqn:E1.
-  { apply Nat.eqb_eq in E1; subst tag. cbn. auto. }
-  destruct (tag =? T_MODAL_RETURN)%nat eqn:E2.
-  { apply Nat.eqb_eq in E2; subst tag. cbn. split; [reflexivity|split; [reflexivity|right; eauto]]. }
-  assert (I : inert_tag tag = true).
-  { unfold inert_tag. rewrite E1, E2. apply Nat.eqb_neq in H. rewrite H. reflexivity. }
-  destruct (step_inert_vsame w tag args text I) as (V1 & V2 & V3 & _). auto.
-Qed.
-
-(* ---- the full acceptors are the proved part and the input clause ---- *)
-Lemma srun_mon_and c1 c2 t : forall w i,
-  srun_mon (fun w e => c1 w e && c2 w e) w t i = None <-> srun_mon c1 w t i = None /\ srun_mon c2 w t i = None.
-Proof.
-  induction t as [|e r IH]; intros w i; cbn [srun_mon]; [tauto|].
-  destruct (c1 w e), (c2 w e); cbn [andb]; try (split; [discriminate|intros [X Y]; discriminate]).
-  apply IH.
-Qed.
-Lemma srun_mon_ext c1 c2 t : (forall w e, c1 w e = c2 w e) -> forall w i, srun_mon c1 w t i = srun_mon c2 w t i.
-Proof. intros H. induction t as [|e r IH]; intros w i; cbn [srun_mon]; [reflexivity|]. rewrite H, IH. reflexivity. Qed.
-
-Lemma sok_C05_gen_split strict typed t :
-  sok (chk_C05_gen strict) typed t = sok (chk_C05_shield_gen strict) typed t && sok chk_C05_input typed t.
-Proof.
-  pose proof (srun_mon_and (chk_C05_shield_gen strict) chk_C05_input t (sworld0 typed) 0) as H.
-  rewrite <- (srun_mon_ext (chk_C05_gen strict) _ t (chk_C05_gen_split strict)) in H.
-  unfold sok. destruct (srun_mon (chk_C05_gen strict) (sworld0 typed) t 0) as [k|].
-  - destruct (srun_mon (chk_C05_shield_gen strict) (sworld0 typed) t 0), (srun_mon chk_C05_input (sworld0 typed) t 0);
-      try reflexivity. destruct H as [_ H]. discriminate (H (conj eq_refl eq_refl)).
-  - destruct H as [H _]. destruct (H eq_refl) as [-> ->]. reflexivity.
-Qed.
-
-(* the monitors of ScreenMon.v on session traces: only the T_INPUT clause is left to be observed *)
-Theorem C05_session_modulo_input specs specl typed quit run_empty fuel acts :
+(* the whole acceptor of ScreenMon.v *)
+Theorem C05_full_session specs specl typed quit run_empty fuel acts :
   let t := rev (trace (snd (app_run_all specs specl typed quit run_empty fuel acts))) in
-  sok chk_C05_partial typed t = sok chk_C05_input typed t /\
-  (no_f13 t = true -> sok chk_C05 typed t = sok chk_C05_input typed t).
+  no_stale_prompt t = true -> no_orphan_prompt t = true -> no_modal_during_prompt t = true ->
+  sok chk_C05_partial typed t = true /\ (no_f13 t = true -> sok chk_C05 typed t = true).
 Proof.
-  intros t. destruct (C05_shield_session specs specl typed quit run_empty fuel acts) as (H1 & H2 & _). fold t in H1, H2.
-  split.
-  - unfold chk_C05_partial. rewrite sok_C05_gen_split. fold chk_C05_shield_partial. rewrite H1. reflexivity.
-  - intros N. unfold chk_C05. rewrite sok_C05_gen_split. fold chk_C05_shield. rewrite (H2 N). reflexivity.
+  intros t H1 H2 H3. destruct (C05_input_session specs specl typed quit run_empty fuel acts) as (S1 & S2 & _ & S4).
+  fold t in S1, S2, S4. specialize (S4 H1 H2 H3). split.
+  - unfold chk_C05_partial. rewrite sok_C05_gen_split. fold chk_C05_shield_partial. rewrite S1, S4. reflexivity.
+  - intros N. unfold chk_C05. rewrite sok_C05_gen_split. fold chk_C05_shield. rewrite (S2 N), S4. reflexivity.
 Qed.
 
-(* ================================================================ the caller resumes: one unfolding *)
-Section Eq.
-Variable specs : nat -> screen_spec.
-Notation code := (screen_code specs).
-Notation st := (lstate sstate).
-
-Lemma exec_seq f p q (s : st) : exec code (S f) (CProg (p ;; q)) s =
-  let '(o, s1) := exec code f (CProg p) s in match o with ONormal => exec code f (CProg q) s1 | _ => (o, s1) end.
-Proof. reflexivity. Qed.
-Lemma exec_emit f e (s : st) : exec code (S f) (CProg (PEmit e)) s = (ONormal, emit (user_event e) s).
-Proof. reflexivity. Qed.
-Lemma exec_rd f k (s : st) : exec code (S f) (CProg (rd k)) s = exec code f (CProg (k (ust s))) (s <| ust := ust s |>).
-Proof. reflexivity. Qed.
-Lemma exec_wr f g (s : st) : exec code (S (S f)) (CProg (wr g)) s = (ONormal, s <| ust := g (ust s) |>).
-Proof. reflexivity. Qed.
-Lemma exec_api f a (s : st) : exec code (S f) (CProg (PApi a)) s = exec code f (CApi a) s.
-Proof. reflexivity. Qed.
-
-(* push_screen_modal inside a command list: the operation is announced, the entry appended, the nested loop
-   run; when it returns normally the very next step is the T_MODAL_RETURN event and then the REST of the
-   caller's commands, from the state the nested loop left; any other outcome is passed on unchanged *)
-Lemma caller_resumes_eq f cn self cnt scr a rest (s : st) :
-  let d := {| sd_id := st_next_sd (ust s); sd_scr := scr; sd_args := a; sd_modal := true |} in
-  let s1 := emit (EUser T_STACK [K_APPEND; sd_id d; scr; a; 1] [])
-                 ((emit (EUser T_OP [O_PUSH_MODAL; scr; a] []) s)
-                    <| ust := (ust s) <| st_next_sd := S (st_next_sd (ust s)) |> <| st_stack := d :: st_stack (ust s) |> |>) in
-  exec code (8 + f) (CProg (do_scmds specs cn self cnt (SPushModal scr a :: rest))) s =
-  let '(o, s2) := exec code f (CApi (ANewLoop (render_spec None))) s1 in
-  match o with
-  | ONormal => exec code (7 + f) (CProg (do_scmds specs cn self cnt rest))
-                    (emit (EUser T_MODAL_RETURN [sd_id d; scr] []) s2)
-  | _ => (o, s2)
-  end.
-Proof.
-  intros d s1. cbn [do_scmds do_scmd plus]. unfold new_sd, ev_stack, ev.
-  rewrite exec_seq. rewrite exec_seq. rewrite exec_emit. rewrite exec_rd. cbv beta zeta.
-  rewrite exec_seq, exec_wr. rewrite exec_seq, exec_wr. rewrite exec_seq, exec_emit. rewrite exec_seq, exec_api.
-  destruct s as [qs lv ac hs tk rl fq qc ns ex tr u].
-  match goal with |- context [exec code f (CApi _) ?x] => change x with s1 end.
-  destruct (exec code f (CApi (ANewLoop (render_spec None))) s1) as [o s2].
-  destruct o; reflexivity.
-Qed.
-End Eq.
-
-(* ================================================================ example sessions (evaluated in props/C05.v) *)
-Module C05Ex.
-Definition k1 : str := [49%N]. Definition k2 : str := [50%N]. Definition kc : str := [99%N].
-Definition kx : str := [120%N]. Definition ky : str := [121%N].
-Definition scr (refresh show : list scmd) (inp : list (str * (list scmd * ret_val))) : screen_spec :=
-  {| sc_setup := []; sc_refresh := refresh; sc_show := show; sc_closed := []; sc_input := inp;
-     sc_input_default := ([], None); sc_prompt_none := false; sc_input_required := true;
-     sc_no_separator := false; sc_skip_check := false; sc_pages := 0; sc_answer0 := AnsNoAttr |}.
-(* a screen that never asks for input *)
-Definition quiet (refresh show : list scmd) : screen_spec :=
-  {| sc_setup := []; sc_refresh := refresh; sc_show := show; sc_closed := []; sc_input := [];
-     sc_input_default := ([], Some RProcessed); sc_prompt_none := false; sc_input_required := false;
-     sc_no_separator := false; sc_skip_check := false; sc_pages := 0; sc_answer0 := AnsNoAttr |}.
-Definition session (specl : list screen_spec) (typed : list (option str)) (acts : list saction) : list outcome * list event :=
-  let '(os, st) := app_run_all (fun n => nth n specl default_spec) specl typed None false 2000 acts in
-  (os, rev (trace st)).
-Definition start := [SACmds [SSchedule 0 0]; SARun].
-Definition count_tag (tag : nat) (t : list event) : nat :=
-  length (filter (fun e => match e with EUser g _ _ => (g =? tag)%nat | _ => false end) t).
-
-(* 1. modal pushed from input(); inside it: a push, its close, a replace (the replacement takes the frame over), its close *)
-Definition ex1_specs := [ scr [] [] [(k1, ([SPushModal 1 0], RProcessed))];
-                          scr [] [] [(k1, ([SPush 2 0], RProcessed)); (k2, ([SReplace 3 7], RProcessed))];
-                          scr [] [] []; scr [] [] [] ].
-Definition ex1_typed := map Some [k1; k1; kc; k2; kc; kc].
-Definition ex1 := session ex1_specs ex1_typed start.
-(* 2. modal pushed from refresh() *)
-Definition ex2_specs := [ scr [SIfCount 1 [SPushModal 1 0] []] [] [];
-                          scr [] [] [(k1, ([SPush 2 0], RProcessed))]; scr [] [] [] ].
-Definition ex2_typed := map Some [k1; kc; kc; kc].
-Definition ex2 := session ex2_specs ex2_typed start.
-(* 3. modal pushed from show_all() *)
-Definition ex3_specs := [ scr [] [SIfCount 1 [SPushModal 1 0] []] [];
-                          scr [] [] [(k1, ([SReplace 2 0], RProcessed))]; scr [] [] [] ].
-Definition ex3_typed := map Some [k1; kc; kc].
-Definition ex3 := session ex3_specs ex3_typed start.
-(* 4. a modal from a modal from a modal, with a push and its close at depth 2 *)
-Definition ex4_specs := [ scr [] [] [(k1, ([SPushModal 1 0], RRedraw))];
-                          scr [] [] [(k1, ([SPushModal 2 0], RRedraw))];
-                          scr [] [] [(k1, ([SPushModal 3 0], RRedraw)); (k2, ([SPush 4 0], RProcessed))];
-                          scr [] [] []; scr [] [] [] ].
-Definition ex4_typed := map Some [k1; k1; k2; kc; k1; kc; kc; kc; kc].
-Definition ex4 := session ex4_specs ex4_typed start.
-
-(* finding F13 at the screen level: input() of a modal screen closes it and pushes another modal screen *)
-Definition f13_specs := [ scr [] [] [(k1, ([SPushModal 1 0], RRedraw))];
-                          scr [] [] [(k1, ([SCloseNow; SPushModal 2 0], RProcessed))];
-                          scr [] [] [] ].
-Definition f13_typed := map Some [k1; k1; kc; kc].
-Definition f13 := session f13_specs f13_typed start.
-
-(* a hand-written trace: entry 0, a modal entry 1 on top of it, then a refresh of entry 0 *)
-Definition bad_trace : list event :=
-  [EUser T_STACK [K_APPEND; 0; 0; 0; 0] []; EUser T_STACK [K_APPEND; 1; 1; 0; 1] []; EUser T_REFRESH [0; 0; 0] []].
-
-(* a hand-written trace in which the entry beneath a modal entry disappears while its frame is open:
-   a replace of the modal entry that pops twice *)
-Definition bad_below : list event :=
-  [EUser T_STACK [K_APPEND; 0; 0; 0; 0] []; EUser T_STACK [K_APPEND; 1; 1; 0; 1] [];
-   EUser T_OP [O_REPLACE; 2; 0] []; EUser T_STACK [K_POP; 1; 1; 0; 1] []; EUser T_STACK [K_POP; 0; 0; 0; 0] []].
-
-(* finding F16: input() of a screen beneath an open modal screen.
-   cx1: the same screen object twice on the stack, beneath and above the modal screen *)
-Definition cx1_specs := [ quiet [SIfCount 1 [SPush 2 0] []] [];
-                          quiet [SIfCount 1 [SPush 2 7] []] [];
-                          {| sc_setup := []; sc_refresh := [SIfCount 1 [SPushModal 1 0] []]; sc_show := [SIfCount 1 [SCloseSig] []];
-                             sc_closed := []; sc_input := []; sc_input_default := ([], Some RProcessed);
-                             sc_prompt_none := false; sc_input_required := true; sc_no_separator := false;
-                             sc_skip_check := false; sc_pages := 0; sc_answer0 := AnsNoAttr |} ].
-Definition cx1_typed := [Some kx].
-Definition cx1 := session cx1_specs cx1_typed start.
-(* cx2: no screen twice; force_quit, then a second App.run() *)
-Definition cx2_specs := [ {| sc_setup := [];
-                             sc_refresh := [SIfCount 1 [SRedrawSig] [SIfCount 2 [SForceQuit] [SIfCount 3 [SRedrawSig]
-                                            [SIfCount 4 [SPushModal 1 0] []]]]];
-                             sc_show := []; sc_closed := []; sc_input := []; sc_input_default := ([], Some RRedraw);
-                             sc_prompt_none := false; sc_input_required := true; sc_no_separator := false;
-                             sc_skip_check := false; sc_pages := 0; sc_answer0 := AnsNoAttr |};
+(* ================================================================ the other sessions of finding F16 *)
+Module C05InEx.
+Import C05Ex.
+(* cx3: the asking entry is closed, its screen is scheduled again beneath the open modal screen *)
+Definition cx3_specs := [ scr [] [] [(k1, ([SPushModal 1 0], RProcessed))];
+                          quiet [SIfCount 1 [SPush 2 0] [SIfCount 2 [SSchedule 2 0] []]] [];
+                          {| sc_setup := []; sc_refresh := []; sc_show := [SIfCount 1 [SCloseSig] []]; sc_closed := []; sc_input := [];
+                             sc_input_default := ([], Some RProcessed); sc_prompt_none := false; sc_input_required := true;
+                             sc_no_separator := false; sc_skip_check := false; sc_pages := 0; sc_answer0 := AnsNoAttr |} ].
+Definition cx3_typed := [Some k1; Some kx].
+Definition cx3 := session cx3_specs cx3_typed start.
+(* cx4: a prompt for a screen that was never drawn, then a modal screen above it *)
+Definition cx4_specs := [ {| sc_setup := []; sc_refresh := [SIfCount 1 [SRedrawSig; SGetUserInput; SPushModal 2 0] []]; sc_show := [];
+                             sc_closed := []; sc_input := [(k1, ([SPush 1 0], RDiscarded))];
+                             sc_input_default := ([], Some RProcessed); sc_prompt_none := false; sc_input_required := true;
+                             sc_no_separator := false; sc_skip_check := true; sc_pages := 0; sc_answer0 := AnsNoAttr |};
+                          scr [] [] []; quiet [] [] ].
+Definition cx4_typed := [Some k1; Some kx].
+Definition cx4 := session cx4_specs cx4_typed start.
+(* cx5: _process_screen prompts for a screen whose entry was replaced while it was drawn *)
+Definition cx5_specs := [ {| sc_setup := []; sc_refresh := []; sc_show := []; sc_closed := [];
+                             sc_input := [(k2, ([SPush 1 0], RDiscarded)); ([51%N], ([SPush 1 7], RDiscarded))];
+                             sc_input_default := ([], None); sc_prompt_none := true; sc_input_required := true;
+                             sc_no_separator := false; sc_skip_check := false; sc_pages := 0; sc_answer0 := AnsNoAttr |};
+                          {| sc_setup := [true; false]; sc_refresh := [];
+                             sc_show := [SIfCount 1 [SPushModal 1 0; SPush 0 0] [SIfCount 4 [SReplace 0 0] []]]; sc_closed := [];
+                             sc_input := [(k2, ([], RKey [114%N]))];
+                             sc_input_default := ([], Some RRedraw); sc_prompt_none := false; sc_input_required := true;
+                             sc_no_separator := false; sc_skip_check := false; sc_pages := 0; sc_answer0 := AnsNoAttr |} ].
+Definition cx5_typed := [Some [114%N]; Some [114%N]; Some k2].
+Definition cx5 := session cx5_specs cx5_typed [SACmds [SSchedule 0 0; SPush 1 0]; SARun].
+(* cx6: the only level in which the asking screen is registered is closed while its request is pending *)
+Definition cx6_specs := [ scr [] [] [(k1, ([SPush 1 0; SPushModal 2 0; SPushModal 3 0], RProcessed))];
+                          scr [] [] [];
+                          {| sc_setup := []; sc_refresh := []; sc_show := [SIfCount 1 [SCloseSig] []]; sc_closed := [SSchedRedraw]; sc_input := [];
+                             sc_input_default := ([], Some RProcessed); sc_prompt_none := false; sc_input_required := false;
+                             sc_no_separator := false; sc_skip_check := false; sc_pages := 0; sc_answer0 := AnsNoAttr |};
                           quiet [] [] ].
-Definition cx2_typed := [Some kx; Some ky].
-Definition cx2 := session cx2_specs cx2_typed [SACmds [SSchedule 0 0]; SARun; SARun].
-End C05Ex.
+Definition cx6_typed := [Some k1; Some kx].
+Definition cx6 := session cx6_specs cx6_typed start.
+Definition hyps3 (t : list event) := (no_stale_prompt t, no_orphan_prompt t, no_modal_during_prompt t).
+End C05InEx.
